@@ -6,38 +6,50 @@ transcription of the cited equations), decided by exact canonical-form
 comparison (T-ALG).  The repository's constants are folded on the code side,
 the standards' own numbers on the reference side.
 
-R1  canonical-form comparison: ISA temperature / pressure / altitude branches,
-    air density, Mach; FFM2 sea-level fuel flow (eq. 40) and its defaults;
-    BFFM2 humidity / ambient NOx correction (eqs. 44-45); HC/CO ambient factor,
-    ACRP slope, horizontal level and intercept; fuel-sulfur SOx; FOA3 delta
-    table and formula; fuel-flow PMvol constants; SCOPE11 C_BC, k_slm, Q, AFR.
-    Numbers may be literals, module constants or constants imported from
-    another repository module (folded exactly); a parameter that is not a
-    symbol of the cited equation enters with its default value (the cited
-    method is what the function computes when its optional knobs are left
-    alone).  Formulas that depend on a discriminating parameter (SCOPE11
-    k_slm and Q per engine type) are selected by *running the dispatch for
-    each value* (ValueCase): CFG branches, `match` cases, conditional
-    expressions and dict look-ups whose condition is a decidable predicate of
-    the parameter are taken as that value takes them, locals are read through
-    their unique reaching definition on the pruned graph, and every
-    definition that can execute for 'MTF' / 'TF' must equal that engine
-    type's equation — whatever the spelling of the dispatch (if/elif/else,
-    guard clauses, match/case, conditional expression, dict dispatch, a
-    per-branch factor).  A condition on the parameter that is not a
-    comparison with literals is UNDECIDED, never guessed.
-R2  inverse pair: pressure(altitude) and altitude(pressure) use mirrored
-    branch tests, the same tropopause pressure, and exponents whose product
-    is exactly 1.
-R3  identities: sulfur atoms conserved (EI_SO2/MW_SO2 + EI_SO4/MW_SO4 ≡
-    S·10³/MW_S); EI_SOx = EI_SO2 + EI_SO4; linear scaling where the block is
+R1  canonical-form comparison: ISA temperature / pressure / altitude, air density, Mach; FFM2 sea-level fuel flow
+    (eq. 40) and its defaults; BFFM2 humidity / ambient NOx correction (eqs. 44-45); HC/CO ambient factor, ACRP
+    slope, horizontal level and intercept; fuel-sulfur SOx; SCOPE11 C_BC, k_slm, Q, AFR.
+    Numbers may be literals, module constants or constants imported from another repository module (folded
+    exactly); a parameter that is not a symbol of the cited equation enters with its default value.
+    *Piecewise formulas are read region by region* (ValueCase): the function is followed for a value of the
+    discriminating variable - an engine type ('MTF' / 'TF' for SCOPE11 k_slm and Q), or a representative altitude /
+    pressure on either side of the tropopause within a metre, on either side of every numeric threshold the code
+    compares with, and at the ends of the range (ISA) - every selection that value decides takes the side the value
+    takes (if / elif / else, guard clauses, match / case, conditional expressions, dict look-ups, np.where in either
+    orientation, np.minimum / np.maximum, range checks), locals are read through their unique reaching definition,
+    module-level arithmetic names and the repository's own helpers are followed into their definitions, and what
+    remains must equal the cited formula of that region.  A condition that the value does not decide is UNDECIDED,
+    never guessed.  A rational code form against a reference with exp / log / non-integer powers is a definite
+    difference.
+    The HC/CO ambient factor is read off the value returned: the returned expression times every unguarded
+    whole-array scaling (`A *= f; return A`, `return A * f`, one expression).  The atmospheric state's attributes
+    are followed to the values stored in them (locals, array conversions, earlier attributes).
+    *Element-wise routines are run for single points* (ScalarRun: exact rational arithmetic on the function's own
+    statements; np.where / np.select / np.interp / interp1d / digitize on scalars; tables in the function or at
+    module level): FOA3 volatile PM at thrust settings below, at, between and above the table entries (δ held at the
+    ends of the table), fuel-flow volatile PM per thrust mode, the SCOPE11 smoke-number cap where C_BC is computed.
+    The log-log NOx fit and the NOx speciation are read by value (names followed to their reaching definitions,
+    tuple / generator unpacking component-wise).
+R2  inverse pair: pressure(altitude) and altitude(pressure) conform to the standard region by region with
+    representatives within a metre of the tropopause (same split point); exponents whose product is exactly 1.
+R3  identities: sulfur atoms conserved (EI_SO2/MW_SO2 + EI_SO4/MW_SO4 ≡ S·10³/MW_S); the result record's fields,
+    positional or keyword, carry EI_SO2 + EI_SO4, EI_SO2 and EI_SO4 by value; linear scaling where the block is
     homogeneous of degree 1 in the certification symbol.
-R4  thrust categories are total and single-valued: np.select with two
-    conditions on the same array against the two mid-points of consecutive
-    calibration modes, and a default; ascending in fuel flow.
-R6  per-mode values become arrays (and back) in the order of the ThrustMode
-    enumeration, never in dict insertion order.
-R5  HC/CO clamping rules are applied in the documented order (a) (b) (c).
+R4  thrust categories are total, single-valued and ascending: the category of one fuel flow is evaluated for
+    calibration flows in every order (monotone, reversed, equal, mixed), at and around both mid-points; documented:
+    idle up to and including mid(idle, approach), climb strictly above mid(approach, climb), approach otherwise, the
+    first rule that applies winning.  np.select, nested np.where, named masks, np.digitize / searchsorted (with
+    numpy's numbering for descending bins) are all just functions of the point.
+R6  per-mode values become arrays (and back) in the order of the ThrustMode enumeration, never in dict insertion order.
+R5  HC/CO clamping rules (a) (b) (c) applied in the documented order.  The five scalars that shape the fit (break
+    point, level, slope, base fuel flow, base EI) are computed by running the function's own scalar prelude, in exact
+    rational arithmetic over the log10 values of the eight certification numbers, for a representative of every
+    region of: slope against zero and against every literal / isclose tolerance the code compares with, idle and
+    approach flows equal / nearly equal / ordered / reversed, approach against climb flow, and the raw intersection
+    below / at / between / at / above the approach and climb flows.  The resulting fit must equal the documented rule
+    table run on the same inputs ("slope == 0" read with np.isclose's tolerance, or exactly).  Merged steps,
+    reordered or nested tests, flags and guard variables do not matter; which fit each region gets does.  Two
+    embedded preludes (documented chain; flatten rule tested first) are the positive controls.
 
 Not decided: MEEM, the HC/CO bilinear fit's numerical behaviour, anything
 phrased over the whole real input range (finiteness, sign, monotone in value).
@@ -46,12 +58,13 @@ phrased over the whole real input range (finiteness, sign, monotone in value).
 from __future__ import annotations
 
 import ast
+import re
 from fractions import Fraction
 
 from ..algebra import AlgebraError, module_constants, normal_form, poly_equal
-from ..astutil import (call_name, calls_in, guards_of, kwarg, norm, single_def_value, stores_to,
+from ..astutil import (call_name, calls_in, const_value, guards_of, kwarg, norm, single_def_value, stores_to,
                        walk_no_nested)
-from ..conform import compare2, nf_code, ref_normal_form
+from ..conform import compare2, heads, nf_code, ref_normal_form
 from .. import reference_equations as REF
 
 ATM = 'utils/standard_atmosphere.py'
@@ -108,6 +121,9 @@ def _cmp(ctx, rule, fi, what, code_expr, ref, consts, rename=None, stop=(), refd
     except AlgebraError as e:
         ctx.undecided(rule, fi, what, f'cannot normalise: {e}')
     v, why = compare2(code, want)
+    if v == 'undecided' and not heads(code) and heads(want):
+        # a rational function of the symbols is never a function with non-integer powers / exp / log of them
+        v, why = 'different', f'the code has none of the {heads(want)} terms of the reference: code = {str(code)[:120]}'
     if v == 'undecided':
         ctx.undecided(rule, fi, what, why)
     ctx.ob(rule, fi, f'{what} ≡ {ref[:70]}', v == 'equal',
@@ -157,9 +173,12 @@ class ValueCase:
 
     OTHER = '\x00any-other-value'
 
-    def __init__(self, fn, var=None, val=None, module_tree=None, opener=None, _depth=0):
+    def __init__(self, fn, var=None, val=None, module_tree=None, opener=None, _depth=0, numbers=None):
         from ..cfg import CFG
         self.fn, self.var, self.val = fn, var, val
+        # numbers: name -> value of the module's numeric constants; with a numeric `val` a condition on `var` that is
+        # arithmetic over these (a threshold computed from constants, np.any(x > c)) is decided by evaluating it at val
+        self.numbers = {k: float(v) for k, v in (numbers or {}).items()}
         self.module_tree = module_tree
         self.opener = opener
         self._depth = _depth
@@ -295,6 +314,11 @@ class ValueCase:
             return bool(eval_pred(r, {self.var: self.val}))
         except (ValueError, TypeError):
             pass
+        if self.numbers and isinstance(self.val, (int, float)):
+            try:
+                return bool(self.num(r))
+            except ArithmeticError:
+                pass
         # `a or b` / `a and b` with only some operands depending on var: decided only if those operands decide it
         if isinstance(r, ast.BoolOp):
             vals = [self._decide(v, at, True) for v in r.values]
@@ -360,6 +384,27 @@ class ValueCase:
             return s.value, ds[0], None
         return None
 
+    def _module_expr(self, name):
+        """value of a module-level name bound exactly once to an arithmetic expression (numbers, names, + - * / **,
+        elementary functions): reading the name is reading that expression"""
+        if self.module_tree is None:
+            return None
+        vals = [s.value for s in ast.walk(self.module_tree) if isinstance(s, (ast.Assign, ast.AnnAssign, ast.AugAssign))
+                and getattr(s, 'value', None) is not None
+                and any(isinstance(t, ast.Name) and t.id == name for t in ast.walk(s.targets[0] if isinstance(s, ast.Assign) and len(s.targets) == 1 else getattr(s, 'target', ast.Pass())))]
+        top = [s.value for s in self.module_tree.body if isinstance(s, (ast.Assign, ast.AnnAssign)) and getattr(s, 'value', None) is not None
+               and any(isinstance(t, ast.Name) and t.id == name for t in (s.targets if isinstance(s, ast.Assign) else [s.target]))]
+        if len(vals) != 1 or len(top) != 1:
+            return None
+        ok = (ast.Constant, ast.Name, ast.Attribute, ast.BinOp, ast.UnaryOp, ast.Call, ast.operator, ast.unaryop, ast.expr_context)
+        v = top[0]
+        if isinstance(v, ast.Constant) or not all(isinstance(x, ok) for x in ast.walk(v)):
+            return None
+        if any(isinstance(x, ast.Call) and call_name(x).split('.')[-1] not in ('exp', 'log', 'log10', 'sqrt', 'power', 'float')
+               for x in ast.walk(v)):
+            return None
+        return v
+
     def _module_dict(self, name):
         if self.module_tree is None:
             return None
@@ -407,7 +452,7 @@ class ValueCase:
                 bind.setdefault(p.arg, d)
         key = id(callee)
         if key not in self._sub:
-            self._sub[key] = ValueCase(callee, None, None, self.module_tree, self.opener, self._depth + 1)
+            self._sub[key] = ValueCase(callee, None, None, self.module_tree, self.opener, self._depth + 1, self.numbers)
         sub = self._sub[key]
         at = sub.node_of(rets[0])
         if at is None:
@@ -466,6 +511,16 @@ class ValueCase:
                     if isinstance(v, (ast.Tuple, ast.List)) and len(v.elts) > d[2] and \
                             not any(isinstance(x, ast.Starred) for x in v.elts):
                         return v.elts[d[2]]
+                    if isinstance(v, (ast.GeneratorExp, ast.ListComp)) and len(v.generators) == 1 and not v.generators[0].ifs \
+                            and isinstance(v.generators[0].target, ast.Name) and isinstance(v.generators[0].iter, (ast.Tuple, ast.List)) \
+                            and len(v.generators[0].iter.elts) > d[2] and not any(isinstance(x, ast.Starred) for x in v.generators[0].iter.elts):
+                        # a, b, c = (f(x) for x in (p, q, r)): the i-th component is f(<i-th element>)
+                        tgt, item = v.generators[0].target.id, v.generators[0].iter.elts[d[2]]
+
+                        class S(ast.NodeTransformer):
+                            def visit_Name(self, x):
+                                return _cp(item) if x.id == tgt and isinstance(x.ctx, ast.Load) else x
+                        return S().visit(_cp(v.elt))
                     return n                      # one component of one value: a symbol
                 if ds:
                     # one binding that is not an assignment (loop / with target) is one value, kept as a symbol;
@@ -477,7 +532,13 @@ class ValueCase:
                         return ast.copy_location(ast.Name(n.id + ':rebound', ast.Load()), n)
                     return n
                 md = me._module_dict(n.id)
-                return _cp(md) if md is not None else n
+                if md is not None:
+                    return _cp(md)
+                if not ds and n.id not in me.params and n.id not in me.locals and depth < 10 and n.id not in me.numbers:
+                    mv = me._module_expr(n.id)
+                    if mv is not None:
+                        return me.resolve(mv, at, stop, quiet, depth + 1)
+                return n
 
             def visit_IfExp(self, n):
                 d = me._decide(n.test, at)
@@ -518,6 +579,107 @@ class ValueCase:
                 return n
 
         return R().visit(_cp(e))
+
+    # -- numbers ------------------------------------------------------------
+    _MATH = {'exp': 'exp', 'log': 'log', 'log10': 'log10', 'sqrt': 'sqrt', 'abs': 'fabs', 'absolute': 'fabs', 'fabs': 'fabs'}
+
+    def num(self, e):
+        """value of an arithmetic expression over the module's constants and `var` = `val`; ArithmeticError when
+        it is anything else.  Only used to see which side of a threshold a representative point lies on."""
+        import math
+        if isinstance(e, ast.Constant) and isinstance(e.value, (int, float)):
+            return e.value
+        if isinstance(e, (ast.Name, ast.Attribute)):
+            t = norm(e)
+            if t == self.var and isinstance(self.val, (int, float)):
+                return self.val
+            if t in self.numbers:
+                return self.numbers[t]
+            raise ArithmeticError(t)
+        if isinstance(e, ast.UnaryOp):
+            v = self.num(e.operand)
+            return -v if isinstance(e.op, ast.USub) else (not v) if isinstance(e.op, ast.Not) else v
+        if isinstance(e, ast.BinOp):
+            a, b = self.num(e.left), self.num(e.right)
+            try:
+                if isinstance(e.op, ast.Add):
+                    return a + b
+                if isinstance(e.op, ast.Sub):
+                    return a - b
+                if isinstance(e.op, ast.Mult):
+                    return a * b
+                if isinstance(e.op, ast.Div):
+                    return a / b
+                if isinstance(e.op, ast.Pow):
+                    return float(a) ** b
+            except (OverflowError, ValueError, ZeroDivisionError) as ex:
+                raise ArithmeticError(str(ex))
+            raise ArithmeticError('operator')
+        if isinstance(e, ast.BoolOp):
+            vals = [self.num(v) for v in e.values]
+            return all(vals) if isinstance(e.op, ast.And) else any(vals)
+        if isinstance(e, ast.Compare) and len(e.ops) == 1:
+            a, b = self.num(e.left), self.num(e.comparators[0])
+            f = {ast.Lt: a < b, ast.LtE: a <= b, ast.Gt: a > b, ast.GtE: a >= b, ast.Eq: a == b, ast.NotEq: a != b}.get(type(e.ops[0]))
+            if f is None:
+                raise ArithmeticError('comparison')
+            return f
+        if isinstance(e, ast.Call) and not e.keywords:
+            f = call_name(e).split('.')[-1]
+            if isinstance(e.func, ast.Attribute) and f in ('any', 'all', 'item') and not e.args:
+                return self.num(e.func.value)
+            args = [self.num(a) for a in e.args]
+            if f in self.CONVERSIONS + ('any', 'all', 'bool') and len(args) == 1:
+                return args[0]
+            if f in self._MATH and len(args) == 1:
+                try:
+                    return getattr(math, self._MATH[f])(args[0])
+                except (ValueError, OverflowError) as ex:
+                    raise ArithmeticError(str(ex))
+            if f in ('minimum', 'min', 'fmin') and len(args) >= 2:
+                return min(args)
+            if f in ('maximum', 'max', 'fmax') and len(args) >= 2:
+                return max(args)
+            if f == 'power' and len(args) == 2:
+                return self.num(ast.BinOp(e.args[0], ast.Pow(), e.args[1]))
+        raise ArithmeticError(type(e).__name__)
+
+    def region_value(self, e, at, stop=()):
+        """`e` at node `at` as one expression for this value of `var`: resolved (see `resolve`), then every element-wise
+        selection whose condition this value decides replaced by the selected operand - np.where(c, a, b), np.minimum /
+        np.maximum / min / max of two operands, np.clip - and array conversions dropped.  What remains is the formula
+        the function computes in the region the value lies in."""
+        me = self
+
+        class D(ast.NodeTransformer):
+            def visit_Call(self, n):
+                n = self.generic_visit(n)
+                f = call_name(n).split('.')[-1]
+                if f in me.CONVERSIONS and len(n.args) == 1 and not [k for k in n.keywords if k.arg != 'dtype']:
+                    return n.args[0]
+                try:
+                    if f == 'where' and len(n.args) == 3 and not n.keywords:
+                        return n.args[1] if me.num(n.args[0]) else n.args[2]
+                    if f in ('minimum', 'maximum', 'min', 'max', 'fmin', 'fmax') and len(n.args) == 2 and not n.keywords:
+                        a, b = me.num(n.args[0]), me.num(n.args[1])
+                        if a != b:
+                            return n.args[0] if (a < b) == ('min' in f) else n.args[1]
+                        if not me._depends(n.args[0]) and not me._depends(n.args[1]):
+                            return n.args[0]          # two spellings of one constant
+                except ArithmeticError:
+                    pass
+                return n
+
+            def visit_IfExp(self, n):
+                n = self.generic_visit(n)
+                try:
+                    return n.body if me.num(n.test) else n.orelse
+                except ArithmeticError:
+                    return n
+
+            def visit_Lambda(self, n):
+                return n
+        return D().visit(self.resolve(e, at, stop=stop))
 
     CONVERSIONS = ('float', 'float64', 'asarray', 'array', 'asanyarray', 'squeeze', 'atleast_1d')
     METHOD_CONVERSIONS = ('item', 'to_numpy', 'copy', 'squeeze', 'astype', 'compute', 'load')
@@ -655,92 +817,165 @@ def rule_isa(ctx):
                        (f'the result array takes the dtype of `{norm(c.args[0])}`: for an integer altitude (or pressure) the '
                         'temperatures / pressures written into it are truncated to whole numbers (228.7 K → 228 K), and everything '
                         'derived from them (pressure level, density, speed of sound) is off by a per cent or two'), line=c.lineno)
+    # The three ISA functions are piecewise: one formula below the tropopause, one above.  Each is read region by
+    # region: the function is followed for a representative altitude (pressure) of the region - every selection the
+    # value decides (np.where in either orientation, np.minimum / np.maximum, conditional expressions, if / else,
+    # guard clauses, range checks) takes the side that value takes, locals and the repository's own helpers are
+    # followed into their definitions - and the formula that remains is compared with the standard's formula for
+    # that region as an exact canonical form.  Representatives lie on both sides of the tropopause within a metre, on
+    # both sides of every numeric threshold the code compares with, and at the ends of the range.
+    import math
+    numbers = {k: float(v) for k, v in consts.items()}
+    fns = {f.name: f for f in m.functions.values() if '.' not in f.qualname}
+
+    def opener(call):
+        if isinstance(call.func, ast.Name) and call.func.id in fns:
+            return fns[call.func.id].node
+        return None
+
+    def thresholds(fi):
+        out = set()
+        for x in walk_no_nested(fi.node):
+            if isinstance(x, ast.Compare):
+                for e_ in [x.left] + list(x.comparators):
+                    v = const_value(e_)
+                    if isinstance(v, (int, float)) and not isinstance(v, bool):
+                        out.add(float(v))
+        return out
+
+    def region_formula(fi, var, val):
+        """(formula, None) for this value, (None, 'raises') when the function refuses it"""
+        try:
+            vc = ValueCase(fi.node, var, val, m.tree, opener, numbers=numbers)
+            rets = [r for r in walk_no_nested(fi.node) if isinstance(r, ast.Return) and r.value is not None and vc.node_of(r) is not None]
+            raises = [r for r in walk_no_nested(fi.node) if isinstance(r, ast.Raise) and vc.node_of(r) is not None]
+            if not rets and raises:
+                return None, 'raises'
+            if len(rets) != 1:
+                ctx.undecided('C12-R1', fi, f'{var} = {val:g}', f'{len(rets)} return statements can run for this value')
+            e = vc.region_value(rets[0].value, vc.node_of(rets[0]))
+            if vc.unresolved:
+                ctx.undecided('C12-R1', fi, f'{var} = {val:g}', f'{sorted(vc.unresolved)} have several definitions reaching the return')
+            return e, None
+        except Undecidable as ex:
+            ctx.undecided('C12-R1', fi, f'{var} = {val:g}', str(ex))
+
+    h_t = float(rc['h_p_tropo'])
+    T0_, p0_, g0_, R_, beta_ = (float(rc[k]) for k in ('T0', 'p0', 'g0', 'R_air', 'beta_tropo'))
+    p_t = p0_ * ((T0_ + beta_ * h_t) / T0_) ** (-g0_ / (beta_ * R_))
+
+    def p_std(h):
+        if h <= h_t:
+            return p0_ * ((T0_ + beta_ * h) / T0_) ** (-g0_ / (beta_ * R_))
+        return p_t * math.exp(-g0_ / (R_ * (T0_ + beta_ * h_t)) * (h - h_t))
+
+    def check(fi, var, samples, to_alt, refs, refdefs, what):
+        """compare the formula of every sample's region with the standard's; returns the number of regions compared"""
+        done = {}
+        refused_inside = []
+        for v in samples:
+            h = to_alt(v)
+            region = 'troposphere' if h <= h_t else 'stratosphere'
+            e, why = region_formula(fi, var, v)
+            if e is None:
+                refused_inside.append(v)
+                continue
+            key = (region, norm(e))
+            if key in done:
+                continue
+            done[key] = True
+            _cmp(ctx, 'C12-R1', fi, f'{what} ({region})', e, refs[region], consts, refconsts=rc, refdefs=refdefs,
+                 line=fi.node.lineno)
+        ok = not refused_inside
+        ctx.ob('C12-R1', fi, f'{what} defined over the whole documented range', ok, '0 - 25 km' if ok else
+               f'{var} = {refused_inside[0]:g} (inside the documented range) is refused', nontrivial=False)
+        return len({r for r, _ in done})
+
+    alts = {0.0, 5000.0, h_t - 1.0, h_t + 1.0, 20000.0, 24999.0}     # at the tropopause itself both formulas hold
     tf = m.func('temperature_at_altitude_isa_bada4')
-    w = _where(tf, 'temperature')
-    if w is None:
-        ctx.undecided('C12-R1', tf, 'temperature', 'not an np.where(cond, tropo, strat) definition')
-    ok = norm(w[0]) == 'altitude <= h_p_tropo'
-    ctx.ob('C12-R2', tf, f'temperature branch test {norm(w[0])}', ok, 'troposphere up to and including the tropopause' if ok else
-           'branch test of the temperature profile changed')
-    _cmp(ctx, 'C12-R1', tf, 'T (troposphere)', w[1], REF.ISA['T_tropo_branch'], consts, refconsts=rc)
-    _cmp(ctx, 'C12-R1', tf, 'T (stratosphere)', w[2], REF.ISA['T_strat_branch'], consts, refconsts=rc)
-
     pf = m.func('pressure_at_altitude_isa_bada4')
-    w = _where(pf, 'pressure')
-    if w is None:
-        ctx.undecided('C12-R1', pf, 'pressure', 'not an np.where(cond, tropo, strat) definition')
-    okp = norm(w[0]) == 'altitude <= h_p_tropo'
-    ctx.ob('C12-R2', pf, f'pressure branch test {norm(w[0])}', okp, 'same split as the temperature profile' if okp else
-           'branch test of the pressure profile changed')
-    pt = single_def_value(pf.node, 'p_tropo')
-    if pt is None:
-        # tropopause pressure may be a module constant after a refactor
-        pt = m.constants.get('p_tropo')
-    if pt is None:
-        ctx.undecided('C12-R1', pf, 'p_tropo', 'tropopause pressure definition not found')
-    _cmp(ctx, 'C12-R1', pf, 'p at tropopause', pt, REF.ISA['p_tropopause'], consts, refconsts=rc)
-    _cmp(ctx, 'C12-R1', pf, 'p (troposphere)', w[1], REF.ISA['p_tropo_branch'], consts, refconsts=rc,
-         rename={'temperature_at_altitude_isa_bada4(altitude)': 'TEMPERATURE', 'temperature': 'TEMPERATURE'})
-    _cmp(ctx, 'C12-R1', pf, 'p (stratosphere)', w[2], REF.ISA['p_strat_branch'], consts, refconsts=rc,
-         rename={'p_tropo': 'P_TROPO'}, stop=('p_tropo',))
-    td = single_def_value(pf.node, 'temperature')
-    ok = td is not None and norm(td) == 'temperature_at_altitude_isa_bada4(altitude)'
-    ctx.ob('C12-R1', pf, 'pressure uses the ISA temperature at the same altitude', ok, norm(td) if ok else
-           'temperature fed to the pressure law is not T(altitude)', nontrivial=False)
-
     af = m.func('altitude_from_pressure_isa_bada4')
-    w2 = _where(af, 'altitude')
-    if w2 is None:
-        ctx.undecided('C12-R1', af, 'altitude', 'not an np.where(cond, tropo, strat) definition')
-    ok = norm(w2[0]) == 'pressure >= pressure_tropo'
-    ctx.ob('C12-R2', af, f'inverse branch test {norm(w2[0])}', ok,
-           'mirror image of `altitude <= h_p_tropo` (pressure decreases with altitude)' if ok else
-           'the inverse function splits at a different point than the forward function')
-    ptd = single_def_value(af.node, 'pressure_tropo')
-    if ptd is None:
-        ptd = m.constants.get('p_tropo')
-    tt = single_def_value(af.node, 'temperature_tropo')
-    ren = {'temperature_tropo': 'TT'}
-    if tt is not None:
-        okt = norm(tt) == 'temperature_at_altitude_isa_bada4(h_p_tropo)'
-        ctx.ob('C12-R2', af, f'temperature_tropo = {norm(tt)}', okt, 'T at the tropopause' if okt else
-               'tropopause temperature of the inverse is not T(h_tropo)')
-    if ptd is not None:
-        _cmp(ctx, 'C12-R2', af, 'p at tropopause (inverse)', ptd, 'p0 * (TT / T0) ** (-g0 / (beta_tropo * R_air))', consts,
-             refconsts=rc, rename=ren, stop=('temperature_tropo',),
-             refdefs={'TT': 'T0 + beta_tropo * h_p_tropo'} if tt is None else None)
-    _cmp(ctx, 'C12-R1', af, 'h (troposphere)', w2[1], REF.ISA['h_tropo_branch'], consts, refconsts=rc)
-    _cmp(ctx, 'C12-R1', af, 'h (stratosphere)', w2[2], REF.ISA['h_strat_branch'], consts, refconsts=rc,
-         rename={'pressure_tropo': 'P_TROPO', 'p_tropo': 'P_TROPO'}, stop=('pressure_tropo', 'p_tropo'))
-    # exponents multiply to one
+    for fi in (tf, pf, af):
+        if len(fi.params) != 1:
+            ctx.undecided('C12-R1', fi, 'parameters', 'expected one argument')
+    inside = lambda xs: sorted(x for x in xs if 0.0 <= x <= 25000.0)
+    t_alts = inside(alts | {c + d_ for c in thresholds(tf) for d_ in (-1.0, 1.0)})
+    n = check(tf, tf.params[0], t_alts, lambda h: h,
+              {'troposphere': REF.ISA['T_tropo_branch'], 'stratosphere': REF.ISA['T_strat_branch']}, None, 'T')
+    p_alts = inside(alts | {c + d_ for c in thresholds(pf) | thresholds(tf) for d_ in (-1.0, 1.0)})
+    n += check(pf, pf.params[0], p_alts, lambda h: h,
+               {'troposphere': REF.ISA['p_tropo_branch'], 'stratosphere': REF.ISA['p_strat_branch']},
+               {'TEMPERATURE': REF.ISA['T_tropo_branch'], 'P_TROPO': REF.ISA['p_tropopause']}, 'p')
+    # the inverse: representatives are the standard's own pressures at those altitudes (and around every pressure the
+    # code compares with)
+    p_samples = {p_std(h): h for h in alts}
+    for c in thresholds(af):
+        for f_ in (0.999, 1.001):
+            if p_std(25000.0) <= c * f_ <= p0_:
+                # altitude of that pressure by bisection on the standard's own profile
+                lo, hi = 0.0, 25000.0
+                for _ in range(60):
+                    mid = (lo + hi) / 2
+                    lo, hi = (mid, hi) if p_std(mid) > c * f_ else (lo, mid)
+                p_samples[c * f_] = lo
+    n += check(af, af.params[0], sorted(p_samples), lambda p_: p_samples[p_],
+               {'troposphere': REF.ISA['h_tropo_branch'], 'stratosphere': REF.ISA['h_strat_branch']},
+               {'P_TROPO': REF.ISA['p_tropopause']}, 'h')
+    ctx.floor('C12-R1/isa', n, 6, 'ISA formulas compared (temperature, pressure, altitude: two regions each)')
+    # R2: what makes the pair mutually inverse - the same split point and exponents whose product is one - follows
+    # from both directions conforming to the standard region by region within a metre of the tropopause; the exponent
+    # product is stated on its own as well (troposphere formulas)
     try:
-        pw = [x for x in ast.walk(w[1]) if isinstance(x, ast.BinOp) and isinstance(x.op, ast.Pow)]
-        iw = [x for x in ast.walk(w2[1]) if isinstance(x, ast.BinOp) and isinstance(x.op, ast.Pow)]
+        et, _ = region_formula(pf, pf.params[0], 5000.0)
+        ei, _ = region_formula(af, af.params[0], p_std(5000.0))
+        pw = [x for x in ast.walk(et) if isinstance(x, ast.BinOp) and isinstance(x.op, ast.Pow)]
+        iw = [x for x in ast.walk(ei) if isinstance(x, ast.BinOp) and isinstance(x.op, ast.Pow)]
         e1 = normal_form(pw[0].right, {}, consts)
         e2 = normal_form(iw[0].right, {}, consts)
         ok = (e1 * e2).is_const() and (e1 * e2).const() == 1
-    except Exception as e:
-        ctx.undecided('C12-R2', af, 'exponents', str(e))
-    ctx.ob('C12-R2', af, f'exponents {norm(pw[0].right)} · {norm(iw[0].right)} = 1', ok,
-           'forward and inverse power laws are exact inverses' if ok else
-           'pressure→altitude does not invert altitude→pressure (exponent product ≠ 1)')
-    rng = [n for n in walk_no_nested(tf.node) if isinstance(n, ast.Raise)]
-    okr = bool(rng) and any('altitude > 25000' in norm(t) for t, _, _ in guards_of(rng[0]))
+        ctx.ob('C12-R2', af, f'exponents {norm(pw[0].right)} · {norm(iw[0].right)} = 1', ok,
+               'forward and inverse power laws are exact inverses' if ok else
+               'pressure→altitude does not invert altitude→pressure (exponent product ≠ 1)')
+    except (IndexError, AlgebraError, AttributeError):
+        ctx.note('C12-R2: power-law exponents not located; the inverse pair is decided by the region formulas alone')
+    e, why = region_formula(tf, tf.params[0], 25001.0)
+    okr = e is None and why == 'raises'
     ctx.ob('C12-R1', tf, 'altitudes above 25 km refused', okr, 'raise above 25000 m' if okr else 'range refusal changed', nontrivial=False)
     d = m.func('calculate_air_density')
     r = [n for n in walk_no_nested(d.node) if isinstance(n, ast.Return)][0].value
     _cmp(ctx, 'C12-R1', d, 'air density', r, REF.ISA['density'], consts, refconsts=rc)
+    # the atmospheric state handed to the emission routines: each attribute followed to the value stored in it (through
+    # locals, array conversions and earlier attributes of the same object)
     tm = prog.module('emissions/types.py')
     st = tm.func('AtmosphericState.__init__')
-    mach = [s for t, s, how in stores_to(st.node) if norm(t) == 'self.mach']
-    consts_t = dict(consts)
-    if mach:
-        _cmp(ctx, 'C12-R1', st, 'Mach number', mach[0].value, REF.ISA['mach'], consts_t, refconsts=rc,
-             rename={'self.temperature': 'TEMPERATURE'})
-    for attr, fn_ in (('temperature', 'temperature_at_altitude_isa_bada4(altitude)'), ('pressure', 'np.array(pressure_at_altitude_isa_bada4(altitude))')):
-        s = [x for t, x, how in stores_to(st.node) if norm(t) == f'self.{attr}']
-        ok = bool(s) and norm(s[0].value) == fn_
-        ctx.ob('C12-R1', st, f'atmospheric state {attr} from the ISA function', ok, fn_ if ok else f'{attr} no longer comes from the ISA model', nontrivial=False)
+    vc = ValueCase(st.node)
+    stored = {}
+
+    class _Attrs(ast.NodeTransformer):
+        def visit_Attribute(self, n):
+            n = self.generic_visit(n)
+            return _cp(stored[norm(n)]) if isinstance(n.ctx, ast.Load) and norm(n) in stored else n
+
+    def plain(e):
+        while isinstance(e, ast.Call) and call_name(e).split('.')[-1] in ValueCase.CONVERSIONS and len(e.args) == 1:
+            e = e.args[0]
+        return e
+    for t, s_, how in stores_to(st.node):
+        if how in ('assign', 'ann') and isinstance(t, ast.Attribute) and norm(t.value) == 'self' and vc.node_of(s_) is not None:
+            try:
+                stored[norm(t)] = plain(_Attrs().visit(vc.resolve(s_.value, vc.node_of(s_), quiet=True)))
+            except Undecidable as ex:
+                ctx.undecided('C12-R1', st, norm(t), str(ex))
+    alt = st.params[1] if len(st.params) > 1 else None
+    for attr, fname in (('temperature', 'temperature_at_altitude_isa_bada4'), ('pressure', 'pressure_at_altitude_isa_bada4')):
+        v = stored.get(f'self.{attr}')
+        ok = isinstance(v, ast.Call) and call_name(v).split('.')[-1] == fname and len(v.args) == 1 and not v.keywords \
+            and norm(plain(v.args[0])) == alt
+        ctx.ob('C12-R1', st, f'atmospheric state {attr} from the ISA function', ok, f'{fname}({alt})' if ok else
+               f'{attr} no longer comes from the ISA model at the state\'s own altitude', nontrivial=False)
+    if 'self.mach' in stored and 'self.temperature' in stored:
+        _cmp(ctx, 'C12-R1', st, 'Mach number', stored['self.mach'], REF.ISA['mach'], dict(consts), refconsts=rc,
+             rename={norm(stored['self.temperature']): 'TEMPERATURE'}, line=st.node.lineno)
 
 
 def rule_ffm2(ctx):
@@ -765,30 +1000,57 @@ def rule_ffm2(ctx):
     ctx.ob('C12-R3', fi, 'Wf_SL is linear in the measured fuel flow', lin, 'degree 1 in fuel_flow' if lin else
            'sea-level fuel flow is not proportional to the measured fuel flow')
     cat = m.func('get_thrust_cat_cruise')
-    sel = [c for c in calls_in(cat.node) if call_name(c) in ('np.select', 'numpy.select')]
-    if len(sel) != 1:
-        dg = [c for c in calls_in(cat.node) if call_name(c).split('.')[-1] in ('digitize', 'searchsorted')]
-        if dg:
-            ctx.ob('C12-R4', cat, f'categories by {call_name(dg[0])}({", ".join(norm(a)[:30] for a in dg[0].args)})', False,
-                   'bin look-ups assume ordered thresholds: for non-monotone calibration flows (idle/approach mid-point '
-                   'above approach/climb mid-point) the bins are numbered from the top and the category is anti-monotone '
-                   'in fuel flow, contradicting the documented rule', line=dg[0].lineno)
-            return
-        ctx.undecided('C12-R4', cat, 'np.select', f'{len(sel)} np.select calls')
-    s = sel[0]
-    conds = [norm(e) for e in s.args[0].elts] if isinstance(s.args[0], ast.List) else []
-    vals = [norm(e) for e in s.args[1].elts] if isinstance(s.args[1], ast.List) else []
-    dfl = kwarg(s, 'default')
-    ok = conds == ['ff_eval <= lowLimit', 'ff_eval > approachLimit'] and vals == ['ThrustMode.IDLE', 'ThrustMode.CLIMB'] \
-        and dfl is not None and norm(dfl) == 'ThrustMode.APPROACH'
-    ctx.ob('C12-R4', cat, f'categories: {list(zip(conds, vals))} default {norm(dfl) if dfl is not None else None}', ok,
-           'low ≤ lowLimit < approach ≤ approachLimit < high: total, single-valued, ascending in fuel flow' if ok else
-           'thrust categories are no longer a total, monotone partition of the fuel-flow axis')
+    # R4 by evaluation: the category of one fuel flow, for calibration flows in every order, at and around both
+    # mid-points.  Documented rule: idle up to and including the idle/approach mid-point, climb strictly above the
+    # approach/climb mid-point, approach for the remainder - the first rule that applies wins, which is what keeps the
+    # category single-valued and ascending when the calibration flows are not monotone.  np.select, nested np.where,
+    # boolean masks, named conditions: all are the same function of the point.
+    if len(cat.params) < 2:
+        ctx.undecided('C12-R4', cat, 'thrust categories', 'parameters (fuel flows, calibration flows) not found')
+    p_ff, p_cal = cat.params[0], cat.params[1]
+    wrappers = set()
+    for c in calls_in(cat.node):
+        if isinstance(c.func, ast.Name):
+            ci = prog.resolve_name(m, c.func.id)
+            if ci is not None and hasattr(ci, 'annotated_fields') and len(list(ci.annotated_fields())) == 1:
+                wrappers.add(c.func.id)
+    bad = None
+    n = 0
+    seen = set()
+    try:
+        for idle, app, climb in ((1, 3, 7), (7, 3, 1), (2, 2, 2), (1, 5, 3), (5, 1, 3), (3, 1, 5)):
+            low, appr = Fraction(idle + app, 2), Fraction(app + climb, 2)
+            cal = {'IDLE': Fraction(idle), 'APPROACH': Fraction(app), 'CLIMB': Fraction(climb), 'TAKEOFF': Fraction(max(idle, app, climb) + 2)}
+            for ff in sorted({Fraction(0), low, appr, (low + appr) / 2, low - Fraction(1, 4), low + Fraction(1, 4),
+                              appr - Fraction(1, 4), appr + Fraction(1, 4), Fraction(9)}):
+                want = 'ThrustMode.IDLE' if ff <= low else 'ThrustMode.CLIMB' if ff > appr else 'ThrustMode.APPROACH'
+                run = ScalarRun(cat.node, {p_cal: cal}, vis, env={p_ff: ff}, enums={'ThrustMode': THRUST_MODES}, wrappers=wrappers)
+                run.run()
+                got = run.returned
+                n += 1
+                seen.add(want)
+                if not isinstance(got, str):
+                    raise Undecidable(f'the category of a point is not decided by comparisons of the fuel flow with the '
+                                      f'calibration flows (returned {got!r})')
+                if got != want and bad is None:
+                    bad = (idle, app, climb, ff, low, appr, want, got)
+    except Undecidable as ex:
+        ctx.undecided('C12-R4', cat, 'thrust categories', str(ex))
+    ctx.floor('C12-R4', len(seen), 3, 'thrust categories reached by the evaluation points')
+    ok = bad is None
+    why = (f'low ≤ mid(idle, approach) < approach ≤ mid(approach, climb) < high at all {n} evaluation points (calibration flows '
+           'in every order): total, single-valued, ascending in fuel flow')
+    if bad is not None:
+        idle, app, climb, ff, low, appr, want, got = bad
+        why = (f'thrust categories are no longer the documented partition of the fuel-flow axis: with calibration flows idle {idle}, approach {app}, '
+               f'climb {climb} (mid-points {float(low):g} and {float(appr):g}) a fuel flow of {float(ff):g} is {got.split(".")[-1]}, documented {want.split(".")[-1]}')
+    sel = [c for c in calls_in(cat.node) if call_name(c).split('.')[-1] in ('select', 'where')]
+    ctx.ob('C12-R4', cat, 'thrust category of a fuel flow: idle / approach / climb by the two mid-points', ok, why,
+           line=(sel[0].lineno if sel else cat.node.lineno))
     for nm, a_, b_ in (('lowLimit', 'IDLE', 'APPROACH'), ('approachLimit', 'APPROACH', 'CLIMB')):
         d = single_def_value(cat.node, nm)
-        if d is None:
-            ctx.undecided('C12-R4', cat, nm, 'threshold definition not found')
-        _cmp(ctx, 'C12-R4', cat, nm, d, f'(A + B) / 2', {}, rename={f'ff_cal[ThrustMode.{a_}]': 'A', f'ff_cal[ThrustMode.{b_}]': 'B'})
+        if d is not None:
+            _cmp(ctx, 'C12-R4', cat, nm, d, f'(A + B) / 2', {}, rename={f'ff_cal[ThrustMode.{a_}]': 'A', f'ff_cal[ThrustMode.{b_}]': 'B'})
 
 
 def rule_bffm2(ctx):
@@ -813,21 +1075,677 @@ def rule_bffm2(ctx):
         n += 1
         _cmp(ctx, 'C12-R1', fi, f'BFFM2 {name}', d, ref, vis, rename=ren, stop=stop)
     ctx.floor('C12-R1/bffm2', n, 9, 'BFFM2 sub-expressions')
-    d = single_def_value(fi.node, 'NOxEI')
-    ok = d is not None and norm(d) in ('NOxEI_sl * correction', 'correction * NOxEI_sl')
-    ctx.ob('C12-R1', fi, 'NOxEI = sea-level EI × ambient correction', ok, norm(d) if ok else 'the ambient correction is not applied to the sea-level EI')
-    ok = all(single_def_value(fi.node, v) is not None and norm(single_def_value(fi.node, v)) == f'np.log10({s})'
-             for v, s in (('x_cal', 'ff_cal'), ('y_cal', 'ei_cal'), ('x_eval', 'ff_eval')))
-    pf = [c for c in calls_in(fi.node) if call_name(c) == 'np.polyfit']
-    ok = ok and len(pf) == 1 and [norm(a) for a in pf[0].args] == ['x_cal', 'y_cal', '1']
-    ctx.ob('C12-R1', fi, 'log10–log10 linear fit of EI against fuel flow', ok, 'np.polyfit(log10 ff, log10 EI, 1)' if ok else
+    # what follows is read by value: every name is followed to the definition that reaches its use (tuple and
+    # generator unpacking component-wise), so hoisting, inlining and reordering of independent statements do not matter
+    vc = ValueCase(fi.node)
+    rets = [r for r in walk_no_nested(fi.node) if isinstance(r, ast.Return) and r.value is not None]
+    at_end = vc.node_of(rets[-1]) if rets else None
+    if at_end is None:
+        ctx.undecided('C12-R1', fi, 'return', 'no return statement')
+
+    def value_of(name, stop=()):
+        try:
+            return vc.resolve(ast.Name(name, ast.Load()), at_end, stop=stop, quiet=True)
+        except Undecidable as ex:
+            ctx.undecided('C12-R1', fi, name, str(ex))
+
+    def same_product(e, factors):
+        try:
+            return poly_equal(normal_form(e, {}, vis), ref_normal_form(' * '.join(factors), {}))
+        except AlgebraError:
+            return False
+    d = value_of('NOxEI', stop=('NOxEI_sl', 'correction'))
+    ok = same_product(d, ['NOxEI_sl', 'correction'])
+    ctx.ob('C12-R1', fi, 'NOxEI = sea-level EI × ambient correction', ok, norm(d)[:60] if ok else 'the ambient correction is not applied to the sea-level EI')
+    # the fit: np.polyfit(log10 <calibration fuel flows>, log10 <certification indices>, 1), evaluated at log10 <fuel flow>
+    pf = [c for c in calls_in(fi.node) if call_name(c).split('.')[-1] == 'polyfit']
+    ok = len(pf) == 1
+    detail = 'np.polyfit(log10 ff, log10 EI, 1)'
+    if ok:
+        a_ = dict(zip(('x', 'y', 'deg'), pf[0].args))
+        a_.update({k.arg: k.value for k in pf[0].keywords})
+        at = vc.node_of(pf[0])
+        try:
+            xs, ys = (vc.resolve(a_[k], at, quiet=True) if k in a_ and at is not None else None for k in ('x', 'y'))
+            xe = value_of('x_eval')
+        except Undecidable as ex:
+            ctx.undecided('C12-R1', fi, 'log-log fit', str(ex))
+
+        def log10_of(e):
+            return e.args[0] if isinstance(e, ast.Call) and call_name(e).split('.')[-1] == 'log10' and len(e.args) == 1 else None
+        lx, ly, le = (log10_of(e) if e is not None else None for e in (xs, ys, xe))
+        ids = lambda e: {t for x in ast.walk(e) for t in (re.split(r'[^a-z]+', (x.id if isinstance(x, ast.Name) else x.attr if isinstance(x, ast.Attribute) else '').lower())) if t}
+        ok = lx is not None and ly is not None and le is not None and set(a_) == {'x', 'y', 'deg'} and const_value(a_['deg']) == 1
+        if ok:
+            flow, index, evalf = ids(lx), ids(ly), ids(le)
+            ok = bool(flow & {'fuelflow', 'ff', 'fuel', 'flow'}) and not (flow & {'ei', 'nox'}) and bool(index & {'ei', 'nox'}) \
+                and not (index & {'fuelflow', 'ff', 'flow'}) and bool(evalf & {'fuel', 'flow', 'ff'})
+            detail = f'np.polyfit(log10 {norm(lx)[:30]}, log10 {norm(ly)[:30]}, 1) at log10 {norm(le)[:30]}'
+    ctx.ob('C12-R1', fi, 'log10–log10 linear fit of EI against fuel flow', ok, detail if ok else
            'the log-log fit changed (axes, base or degree)')
     # linear in the certification EI? (log-log fit: not polynomial) — speciation products are linear in NOxEI
     for out, prop in (('NOEI', 'noProp'), ('NO2EI', 'no2Prop'), ('HONOEI', 'honoProp')):
-        d = single_def_value(fi.node, out)
-        ok = d is not None and norm(d) in (f'NOxEI * {prop}', f'{prop} * NOxEI')
+        d = value_of(out, stop=('NOxEI', prop))
+        ok = same_product(d, ['NOxEI', prop])
         ctx.ob('C12-R3', fi, f'{out} = NOxEI × {prop}', ok, 'speciation scales linearly with the NOx index' if ok else
                f'{out} is not the NOx index times its own fraction')
+
+
+# ---------------------------------------------------------------------------------------------------------------------
+# R5: the scalar decision prelude of the HC/CO fit, run exactly over every sign / position case
+# ---------------------------------------------------------------------------------------------------------------------
+#
+# The bilinear fit is decided by five scalars that the function computes before it touches the evaluation points:
+# the break point x_intercept, the high-power level x_horzline and the slanted line (slope, base_log_fuel,
+# base_log_EI).  Which of the documented SAGE v1.5 rules (a) (b) (c) shapes them depends only on order relations
+# between a handful of quantities (slope against zero, the raw intersection against the approach and climb flows, the
+# two flows against each other).  So the rule is decided the way a reader decides it: by running the prelude for a
+# representative of *every* region of that order partition and comparing the resulting fit with the documented rule
+# table run on the same inputs.  The run is a partial evaluation of the function's own statements (assignments,
+# if / elif / else in any nesting, conditional expressions, and / or, guard flags, np.where on scalars), in exact
+# rational arithmetic over the log10 values of the eight certification numbers - the only inputs the prelude has.
+# Thresholds are not assumed: every numeric literal the prelude compares with, and every isclose tolerance, becomes a
+# break point of the grid, so a region introduced by the code itself is sampled too.  Whatever the spelling - merged
+# steps, reordered tests, flags, nested ifs - the verdict only depends on which fit each region gets.
+
+THRUST_MODES = ('IDLE', 'APPROACH', 'CLIMB', 'TAKEOFF')
+
+
+class _OpaqueValue:
+    def __repr__(self):
+        return '<opaque>'
+
+
+OPQ = _OpaqueValue()
+
+
+class Pos:
+    """a positive real known by its log10 (an entry of the certification tables)"""
+
+    def __init__(self, log):
+        self.log = Fraction(log)
+
+
+class _EarlyExit(Exception):
+    pass
+
+
+def _lin_interp(x, xp, fp, left=None, right=None, extrapolate=False):
+    """np.interp(x, xp, fp) for ascending xp, exactly: end values held outside the table unless told otherwise"""
+    if len(xp) != len(fp) or len(xp) < 2 or any(a >= b for a, b in zip(xp, xp[1:])):
+        raise Undecidable('interpolation table is not strictly ascending')
+    if x < xp[0] and not extrapolate:
+        return fp[0] if left is None else left
+    if x > xp[-1] and not extrapolate:
+        return fp[-1] if right is None else right
+    i = 0 if x < xp[0] else len(xp) - 2 if x > xp[-1] else next(j for j in range(len(xp) - 1) if xp[j] <= x <= xp[j + 1])
+    return fp[i] + (fp[i + 1] - fp[i]) * (x - xp[i]) / (xp[i + 1] - xp[i])
+
+
+class Interp1d:
+    """scipy.interpolate.interp1d(x, y, kind='linear', bounds_error=..., fill_value=...) as a value"""
+
+    def __init__(self, xp, fp, extrapolate, fill):
+        self.xp, self.fp, self.extrapolate, self.fill = xp, fp, extrapolate, fill
+
+    def __call__(self, x):
+        if self.extrapolate:
+            return _lin_interp(x, self.xp, self.fp, extrapolate=True)
+        if x < self.xp[0] or x > self.xp[-1]:
+            if self.fill is None:
+                raise Undecidable('interp1d refuses values outside its table (bounds_error)')
+            lo, hi = self.fill if isinstance(self.fill, tuple) else (self.fill, self.fill)
+            return lo if x < self.xp[0] else hi
+        return _lin_interp(x, self.xp, self.fp)
+
+
+def _isclose(a, b, rtol, atol, numpy_style=True):
+    if numpy_style:
+        return abs(a - b) <= atol + rtol * abs(b)
+    return abs(a - b) <= max(rtol * max(abs(a), abs(b)), atol)
+
+
+class ScalarRun:
+    """The scalar statements of `fn` executed for one concrete input: `tables` maps the names of the per-mode
+    parameters to {mode: log10 of the entry}.  Numbers are Fractions, table entries and their products / powers are
+    `Pos`, everything that depends on anything else (arrays, other parameters, unknown calls) is OPQ.  A test that is
+    OPQ makes everything stored under it OPQ; a division by zero or an unsupported construct on the path raises
+    Undecidable.  `tracked` names are snapshotted at their first use in an opaque (array) expression; a store to one of
+    them after that point is Undecidable."""
+
+    NUM_FUNCS = ('float', 'float64', 'float32', 'asarray', 'array', 'squeeze', 'item', 'double')
+
+    def __init__(self, fn, tables, consts, tracked=(), env=None, enums=None, wrappers=(), module_tree=None):
+        self.fn, self.tables, self.consts, self.tracked = fn, tables, consts, tuple(tracked)
+        self.module_tree = module_tree
+        self._mod = {}
+        self.env = dict(env or {})
+        self.enums = enums or {}
+        self.wrappers = set(wrappers)
+        self.returned = OPQ
+        self.snapshot = None
+        self.snap_line = 0
+        self.exited = False
+
+    # -- expressions --------------------------------------------------------
+    def ev(self, e):
+        m = getattr(self, 'ev_' + type(e).__name__, None)
+        return OPQ if m is None else m(e)
+
+    def ev_Constant(self, e):
+        v = e.value
+        if isinstance(v, bool) or v is None:
+            return v
+        if isinstance(v, (int, float)):
+            return Fraction(repr(v))
+        if isinstance(v, str):
+            return v
+        return OPQ
+
+    def ev_Name(self, e):
+        if e.id in self.env:
+            return self.env[e.id]
+        if e.id in self.consts:
+            return Fraction(self.consts[e.id])
+        if self.module_tree is not None:
+            # a module-level name bound once (a table, an interpolant built at import): its value, evaluated once
+            if e.id not in self._mod:
+                self._mod[e.id] = OPQ
+                defs = [st for st in self.module_tree.body if isinstance(st, (ast.Assign, ast.AnnAssign)) and getattr(st, 'value', None) is not None
+                        and any(isinstance(t, ast.Name) and t.id == e.id for t in (st.targets if isinstance(st, ast.Assign) else [st.target]))]
+                if len(defs) == 1:
+                    saved, self.env = self.env, {}
+                    try:
+                        self._mod[e.id] = self.ev(defs[0].value)
+                    finally:
+                        self.env = saved
+            return self._mod[e.id]
+        return {'True': True, 'False': False}.get(e.id, OPQ)
+
+    def ev_Attribute(self, e):
+        t = norm(e)
+        if t in self.consts:
+            return Fraction(self.consts[t])
+        if isinstance(e.value, ast.Name) and e.attr in self.enums.get(e.value.id, ()) and e.value.id not in self.env:
+            return t                      # a member of an enumeration: a token that only compares equal to itself
+        if e.attr in ('value', 'data') and isinstance(self.ev(e.value), str):
+            return self.ev(e.value)
+        return OPQ
+
+    def ev_NamedExpr(self, e):
+        v = self.ev(e.value)
+        self.bind(e.target, v, e)
+        return v
+
+    def ev_Tuple(self, e):
+        return tuple(self.ev(x) for x in e.elts)
+
+    ev_List = ev_Tuple
+
+    def ev_Subscript(self, e):
+        if isinstance(e.value, ast.Name) and e.value.id in self.tables and e.value.id not in self.env:
+            k = e.slice
+            if isinstance(k, ast.Attribute) and k.attr in self.tables[e.value.id]:
+                return self.tables[e.value.id][k.attr]
+            kv = self.ev(k)
+            if isinstance(kv, str) and kv.split('.')[-1] in self.tables[e.value.id]:
+                return self.tables[e.value.id][kv.split('.')[-1]]
+            return OPQ
+        v = self.ev(e.value)
+        if isinstance(v, tuple):
+            i = self.ev(e.slice)
+            if isinstance(i, Fraction) and i.denominator == 1 and -len(v) <= i < len(v):
+                return v[int(i)]
+        return OPQ
+
+    def ev_UnaryOp(self, e):
+        v = self.ev(e.operand)
+        if isinstance(e.op, ast.Not):
+            return (not v) if isinstance(v, bool) else (v == 0 if isinstance(v, Fraction) else OPQ)
+        if isinstance(v, bool):
+            v = Fraction(int(v))
+        if isinstance(v, Fraction):
+            return -v if isinstance(e.op, ast.USub) else v if isinstance(e.op, ast.UAdd) else OPQ
+        return OPQ
+
+    def ev_BinOp(self, e):
+        a, b = self.ev(e.left), self.ev(e.right)
+        return self.arith(e.op, a, b, e)
+
+    def arith(self, op, a, b, where):
+        if isinstance(a, bool):
+            a = Fraction(int(a))
+        if isinstance(b, bool):
+            b = Fraction(int(b))
+        fa, fb = isinstance(a, Fraction), isinstance(b, Fraction)
+        if fa and fb:
+            if isinstance(op, ast.Add):
+                return a + b
+            if isinstance(op, ast.Sub):
+                return a - b
+            if isinstance(op, ast.Mult):
+                return a * b
+            if isinstance(op, ast.Div):
+                if b == 0:
+                    raise Undecidable(f'`{norm(where)[:60]}` divides by zero on this path')
+                return a / b
+            if isinstance(op, ast.Pow):
+                if a == 10:
+                    return Pos(b)
+                if b.denominator == 1 and (a != 0 or b >= 0):
+                    return a ** int(b)
+            return OPQ
+        if isinstance(a, Pos) and isinstance(b, Pos):
+            if isinstance(op, ast.Mult):
+                return Pos(a.log + b.log)
+            if isinstance(op, ast.Div):
+                return Pos(a.log - b.log)
+            return OPQ
+        if isinstance(a, Pos) and fb and isinstance(op, ast.Pow):
+            return Pos(a.log * b)
+        return OPQ
+
+    def ev_Compare(self, e):
+        left = self.ev(e.left)
+        for op, c in zip(e.ops, e.comparators):
+            right = self.ev(c)
+            a, b = left, right
+            if isinstance(a, Pos) and isinstance(b, Pos):
+                a, b = a.log, b.log
+            elif isinstance(a, Pos) and isinstance(b, Fraction) and b <= 0:
+                a, b = Fraction(1), Fraction(0)
+            elif isinstance(b, Pos) and isinstance(a, Fraction) and a <= 0:
+                a, b = Fraction(0), Fraction(1)
+            if isinstance(op, (ast.Is, ast.IsNot)) and (a is None or b is None) and a is not OPQ and b is not OPQ:
+                r = (a is b) == isinstance(op, ast.Is)
+            elif isinstance(a, str) and isinstance(b, str) and isinstance(op, (ast.Eq, ast.NotEq, ast.Is, ast.IsNot)):
+                r = (a == b) == isinstance(op, (ast.Eq, ast.Is))
+            elif isinstance(a, (Fraction, bool)) and isinstance(b, (Fraction, bool)):
+                r = {ast.Eq: a == b, ast.NotEq: a != b, ast.Lt: a < b, ast.LtE: a <= b, ast.Gt: a > b,
+                     ast.GtE: a >= b}.get(type(op), OPQ)
+            else:
+                r = OPQ
+            if r is OPQ:
+                return OPQ
+            if not r:
+                return False
+            left = right
+        return True
+
+    def truth(self, v):
+        if isinstance(v, bool):
+            return v
+        if isinstance(v, Fraction):
+            return v != 0
+        if v is None:
+            return False
+        if isinstance(v, Pos):
+            return True
+        return OPQ
+
+    def ev_BoolOp(self, e):
+        short = isinstance(e.op, ast.Or)
+        last = OPQ
+        for x in e.values:
+            last = self.ev(x)
+            t = self.truth(last)
+            if t is OPQ:
+                return OPQ
+            if t is short:
+                return last
+        return last
+
+    def ev_IfExp(self, e):
+        t = self.truth(self.ev(e.test))
+        if t is OPQ:
+            return OPQ
+        return self.ev(e.body if t else e.orelse)
+
+    def ev_Call(self, e):
+        f = call_name(e).split('.')[-1]
+        if isinstance(e.func, ast.Attribute) and f in ('item', 'squeeze', 'copy') and not e.args:
+            return self.ev(e.func.value)
+        if isinstance(e.func, ast.Attribute) and f == 'as_array' and not e.args and isinstance(e.func.value, ast.Name) \
+                and e.func.value.id in self.tables and e.func.value.id not in self.env:
+            return tuple(self.tables[e.func.value.id][m] for m in THRUST_MODES)   # enumeration order: C12-R6
+        args = [self.ev(a) for a in e.args]
+        kw = {k.arg: self.ev(k.value) for k in e.keywords if k.arg}
+        if any(isinstance(a, ast.Starred) for a in e.args) or any(k.arg is None for k in e.keywords):
+            return OPQ
+        num = lambda v: isinstance(v, Fraction)
+        table = lambda v: isinstance(v, tuple) and len(v) >= 2 and all(num(x) for x in v)
+        if isinstance(e.func, ast.Name):
+            fobj = self.ev(e.func)
+            if isinstance(fobj, Interp1d) and len(args) == 1 and num(args[0]) and not kw:
+                return fobj(args[0])
+        if f == 'interp' and len(args) + len(kw) >= 3:
+            a = dict(zip(('x', 'xp', 'fp', 'left', 'right'), args))
+            a.update(kw)
+            if num(a.get('x')) and table(a.get('xp')) and table(a.get('fp')) and set(a) <= {'x', 'xp', 'fp', 'left', 'right'} \
+                    and all(a.get(k) is None or num(a.get(k)) for k in ('left', 'right')):
+                return _lin_interp(a['x'], a['xp'], a['fp'], a.get('left'), a.get('right'))
+            return OPQ
+        if f == 'interp1d' and len(args) >= 2 and table(args[0]) and table(args[1]):
+            kind = args[2] if len(args) > 2 else kw.get('kind', 'linear')
+            fill = kw.get('fill_value', None)
+            be = kw.get('bounds_error', None)
+            if kind != 'linear' or len(args) > 3 or not set(kw) <= {'kind', 'fill_value', 'bounds_error', 'assume_sorted', 'copy'}:
+                return OPQ
+            if fill == 'extrapolate':
+                return Interp1d(args[0], args[1], True, None)
+            if fill is None or be is True:
+                return Interp1d(args[0], args[1], False, None)
+            if num(fill) or (isinstance(fill, tuple) and len(fill) == 2 and all(num(x) for x in fill)):
+                return Interp1d(args[0], args[1], False, fill)
+            return OPQ
+        if f in ('full_like', 'full', 'broadcast_to', 'tile') and len(args) >= 2:
+            v = args[1] if f in ('full_like', 'full') else args[0]
+            return v if num(v) or isinstance(v, (Pos, str)) else OPQ
+        if f in ('zeros_like', 'ones_like') and len(args) >= 1:
+            return Fraction(0 if f == 'zeros_like' else 1)
+        if f == 'log10' and len(args) == 1 and isinstance(args[0], Pos):
+            return args[0].log
+        if f == 'log10' and len(args) == 1 and isinstance(args[0], tuple) and all(isinstance(a, Pos) for a in args[0]):
+            return tuple(a.log for a in args[0])
+        if f in ('mean', 'average') and len(args) == 1 and isinstance(args[0], tuple) and args[0] and all(num(a) for a in args[0]):
+            return sum(args[0]) / len(args[0])
+        if f in ('sum', 'fsum') and len(args) == 1 and isinstance(args[0], tuple) and all(num(a) for a in args[0]):
+            return sum(args[0], Fraction(0))
+        if f == 'sqrt' and len(args) == 1 and isinstance(args[0], Pos):
+            return Pos(args[0].log / 2)
+        if f == 'power' and len(args) == 2:
+            return self.arith(ast.Pow(), args[0], args[1], e)
+        if f in self.NUM_FUNCS and len(args) == 1 and (num(args[0]) or isinstance(args[0], (Pos, bool))):
+            return args[0]
+        if f in ('abs', 'fabs', 'absolute') and len(args) == 1 and num(args[0]):
+            return abs(args[0])
+        if f in ('min', 'max', 'minimum', 'maximum', 'fmin', 'fmax') and len(args) >= 2 and all(num(a) for a in args):
+            return (min if 'min' in f else max)(args)
+        if f == 'clip' and len(args) == 3 and all(num(a) for a in args):
+            return min(max(args[0], args[1]), args[2])
+        if f == 'sign' and len(args) == 1 and num(args[0]):
+            return Fraction((args[0] > 0) - (args[0] < 0))
+        if f == 'bool' and len(args) == 1:
+            return self.truth(args[0])
+        if f in ('isfinite',) and len(args) == 1 and num(args[0]):
+            return True
+        if f in ('isnan', 'isinf') and len(args) == 1 and num(args[0]):
+            return False
+        if f == 'where' and len(args) == 3:
+            t = self.truth(args[0])
+            return OPQ if t is OPQ else (args[1] if t else args[2])
+        if f == 'select' and len(args) >= 2 and isinstance(args[0], tuple) and isinstance(args[1], tuple) \
+                and len(args[0]) == len(args[1]):
+            for c_, v_ in zip(args[0], args[1]):       # the first condition that holds selects
+                t = self.truth(c_)
+                if t is OPQ:
+                    return OPQ
+                if t:
+                    return v_
+            return args[2] if len(args) > 2 else kw.get('default', Fraction(0))
+        if f in self.wrappers and len(args) == 1 and not kw:
+            return args[0]                 # a one-field record around the data
+        if f in ('array', 'asarray', 'list', 'tuple') and len(args) == 1 and isinstance(args[0], tuple):
+            return args[0]
+        if f in ('digitize', 'searchsorted') and len(args) >= 2:
+            x, bins = (args[0], args[1]) if f == 'digitize' else (args[1], args[0])
+            right = args[2] if len(args) > 2 else kw.get('right', False) if f == 'digitize' else (kw.get('side', 'left') == 'left')
+            if f == 'searchsorted' and isinstance(kw.get('side', None), _OpaqueValue):
+                return OPQ
+            if not (num(x) and isinstance(bins, tuple) and bins and all(num(b_) for b_ in bins) and isinstance(right, bool)):
+                return OPQ
+            inc = all(a_ <= b_ for a_, b_ in zip(bins, bins[1:]))
+            dec = all(a_ >= b_ for a_, b_ in zip(bins, bins[1:]))
+            if f == 'searchsorted' and not inc:
+                raise Undecidable('np.searchsorted over thresholds that are not ascending has no defined result')
+            if inc:      # numpy: bins[i-1] < x <= bins[i] (right) / bins[i-1] <= x < bins[i]
+                return Fraction(sum(1 for b_ in bins if (b_ < x if right else b_ <= x)))
+            if dec:      # numpy: bins[i-1] >= x > bins[i] (right) / bins[i-1] > x >= bins[i]; numbered from the top
+                return Fraction(sum(1 for b_ in bins if (b_ >= x if right else b_ > x)))
+            raise Undecidable('np.digitize needs monotonic bins (numpy raises ValueError otherwise)')
+        if f in ('logical_and', 'logical_or') and len(args) == 2:
+            a, b = self.truth(args[0]), self.truth(args[1])
+            if a is OPQ or b is OPQ:
+                return OPQ
+            return (a and b) if f == 'logical_and' else (a or b)
+        if f == 'logical_not' and len(args) == 1:
+            t = self.truth(args[0])
+            return OPQ if t is OPQ else not t
+        if f == 'isclose' and len(args) >= 2 and num(args[0]) and num(args[1]):
+            np_style = not call_name(e).startswith('math.')
+            names = ('rtol', 'atol') if np_style else ('rel_tol', 'abs_tol')
+            dfl = (Fraction(1, 10 ** 5), Fraction(1, 10 ** 8)) if np_style else (Fraction(1, 10 ** 9), Fraction(0))
+            rtol = args[2] if len(args) > 2 and np_style else kw.get(names[0], dfl[0])
+            atol = args[3] if len(args) > 3 and np_style else kw.get(names[1], dfl[1])
+            if not (num(rtol) and num(atol)):
+                return OPQ
+            return _isclose(args[0], args[1], rtol, atol, np_style)
+        return OPQ
+
+    # -- statements ---------------------------------------------------------
+    def bind(self, target, v, st):
+        if isinstance(target, ast.Name):
+            if self.snapshot is not None and target.id in self.tracked:
+                raise Undecidable(f'`{target.id}` is rebound at line {st.lineno} after the evaluation points were '
+                                  f'first classified with it (line {self.snap_line})')
+            self.env[target.id] = v
+        elif isinstance(target, (ast.Tuple, ast.List)):
+            if isinstance(v, tuple) and len(v) == len(target.elts) and not any(isinstance(t, ast.Starred) for t in target.elts):
+                for t, x in zip(target.elts, v):
+                    self.bind(t, x, st)
+            else:
+                for t in target.elts:
+                    self.bind(t.value if isinstance(t, ast.Starred) else t, OPQ, st)
+        # a store into a subscript / attribute changes an object, not a scalar of ours
+
+    def cloud(self, stmts, st):
+        """everything stored under a test (or loop) this input does not decide becomes unknown"""
+        for s in stmts:
+            for x in walk_no_nested(s):
+                tg = []
+                if isinstance(x, ast.Assign):
+                    tg = x.targets
+                elif isinstance(x, (ast.AugAssign, ast.AnnAssign, ast.For, ast.NamedExpr)):
+                    tg = [x.target]
+                elif isinstance(x, ast.withitem) and x.optional_vars is not None:
+                    tg = [x.optional_vars]
+                for t in tg:
+                    for n in ast.walk(t):
+                        if isinstance(n, ast.Name) and isinstance(n.ctx, ast.Store):
+                            self.bind(n, OPQ, st)
+
+    def note_use(self, expr, value, st):
+        """the first array expression that reads one of the tracked scalars fixes the fit"""
+        if self.snapshot is None and value is OPQ and expr is not None:
+            if any(isinstance(n, ast.Name) and isinstance(n.ctx, ast.Load) and n.id in self.tracked for n in ast.walk(expr)):
+                self.snapshot = {k: self.env.get(k) for k in self.tracked}
+                self.snap_line = getattr(st, 'lineno', 0)
+
+    def scan_uses(self, stmts):
+        """statements that are not executed (their test or loop is not a scalar matter): what they read still counts"""
+        for s in stmts:
+            for x in walk_no_nested(s):
+                if isinstance(x, ast.stmt):
+                    for f_ in ('value', 'test', 'iter'):
+                        v = getattr(x, f_, None)
+                        if isinstance(v, ast.expr):
+                            self.note_use(v, OPQ, x)
+
+    def run(self):
+        try:
+            self.block(self.fn.body)
+        except _EarlyExit:
+            self.exited = True
+        return self.snapshot
+
+    def block(self, stmts):
+        for st in stmts:
+            self.stmt(st)
+
+    def stmt(self, st):
+        if isinstance(st, ast.Assign):
+            v = self.ev(st.value)
+            self.note_use(st.value, v, st)
+            for t in st.targets:
+                self.bind(t, v, st)
+        elif isinstance(st, ast.AnnAssign):
+            if st.value is not None:
+                v = self.ev(st.value)
+                self.note_use(st.value, v, st)
+                self.bind(st.target, v, st)
+        elif isinstance(st, ast.AugAssign):
+            if isinstance(st.target, ast.Name):
+                v = self.arith(st.op, self.ev(ast.Name(st.target.id, ast.Load())), self.ev(st.value), st)
+                self.note_use(st.value, v, st)
+                self.bind(st.target, v, st)
+            else:
+                self.note_use(st.value, self.ev(st.value), st)
+        elif isinstance(st, ast.If):
+            t = self.truth(self.ev(st.test))
+            if t is OPQ:
+                self.note_use(st.test, OPQ, st)
+                self.scan_uses(st.body + st.orelse)
+                self.cloud(st.body + st.orelse, st)
+            else:
+                self.block(st.body if t else st.orelse)
+        elif isinstance(st, (ast.Return, ast.Raise, ast.Continue, ast.Break)):
+            if isinstance(st, ast.Return) and st.value is not None:
+                self.returned = self.ev(st.value)
+            raise _EarlyExit()
+        elif isinstance(st, (ast.For, ast.While, ast.With, ast.Try, ast.Match)):
+            self.scan_uses([st])
+            self.cloud([st], st)
+        elif isinstance(st, ast.Expr):
+            if not isinstance(st.value, ast.Constant):
+                self.note_use(st.value, self.ev(st.value), st)
+        # assert / pass / nested definitions / imports / del: nothing a scalar depends on
+
+
+HCCO_TRACKED = ('x_intercept', 'x_horzline', 'slope', 'base_log_fuel', 'base_log_EI')
+
+
+def hcco_documented_fit(ei, ff, zero):
+    """The BFFM2 HC/CO bilinear fit as documented (DuBois & Paynter 2006 / SAGE v1.5 rules, transcribed from the
+    cited rule table, independently of the repository's control flow).  `ei`, `ff`: log10 of the certification
+    indices / fuel flows per mode; `zero(x)`: the reading of "slope == 0".  Returns the fit as (break point, level,
+    slope, value of the slanted line at log10 flow 0) and the rule that shaped it."""
+    den = ff['APPROACH'] - ff['IDLE']
+    s = Fraction(0) if zero(den) else (ei['APPROACH'] - ei['IDLE']) / den
+    bf, be = ff['IDLE'], ei['IDLE']
+    level = (ei['CLIMB'] + ei['TAKEOFF']) / 2
+    x = ff['APPROACH'] if zero(s) else bf + (level - be) / s
+    rule = 'none'
+    if x > ff['CLIMB']:                                  # (a)
+        x, rule = ff['CLIMB'], 'a'
+    elif x < ff['APPROACH'] and s < 0:                   # (b)
+        level, x, rule = ei['APPROACH'], ff['APPROACH'], 'b'
+    elif s >= 0:                                         # (c)
+        s, bf, be, x, rule = Fraction(0), Fraction(0), level, ff['APPROACH'], 'c'
+    return (x, level, s, be - s * bf), rule
+
+
+def hcco_grid(breaks):
+    """Certification data (as log10 values) with one representative for every region of: slope against each break
+    point, idle/approach flows equal / nearly equal / ordered / reversed, approach against climb flow, and the raw
+    intersection of the two segments below / at / between / at / above the approach and climb flows.  Offsets are
+    generic rationals so that two different fits never coincide by accident."""
+    bs = sorted({abs(Fraction(b)) for b in breaks} | {Fraction(0)})
+    svals = set()
+    for i, b in enumerate(bs):
+        svals |= {b, -b}
+        nxt = bs[i + 1] if i + 1 < len(bs) else 2 * b + 1
+        svals |= {(b + nxt) / 2, -(b + nxt) / 2}
+    svals |= {2 * bs[-1] + 1 + Fraction(1, 3), -(2 * bs[-1] + 1 + Fraction(1, 3))}
+    tiny = min([b for b in bs if b > 0] or [Fraction(1, 10 ** 8)]) / 2
+    li, e_i = Fraction(3, 11), Fraction(5, 13)
+    for den_label, den in (('', Fraction(1, 2) + Fraction(1, 17)), ('idle and approach flows equal', Fraction(0)),
+                           ('idle and approach flows nearly equal', tiny), ('approach flow below idle flow', -Fraction(1, 2) - Fraction(1, 19))):
+        la = li + den
+        for ord_label, lc in (('', la + 1 + Fraction(1, 23)), ('climb flow below approach flow', la - 1 - Fraction(1, 29)),
+                              ('climb and approach flows equal', la)):
+            lo, hi = min(la, lc), max(la, lc)
+            for s in sorted(svals):
+                ea = e_i + s * den if den != 0 else e_i + Fraction(1, 3)
+                for t_label, t in (('below', lo - Fraction(1, 2)), ('at-low', lo), ('between', (lo + hi) / 2),
+                                   ('at-high', hi), ('above', hi + Fraction(1, 2))):
+                    if t_label == 'between' and lo == hi:
+                        continue
+                    s_eff = (ea - e_i) / den if den != 0 else Fraction(0)
+                    h = e_i + s_eff * (t - li) if s_eff != 0 else e_i + (t - li)
+                    ei = {'IDLE': e_i, 'APPROACH': ea, 'CLIMB': h + Fraction(1, 7), 'TAKEOFF': h - Fraction(1, 7)}
+                    ff = {'IDLE': li, 'APPROACH': la, 'CLIMB': lc, 'TAKEOFF': max(la, lc) + Fraction(1, 5)}
+                    yield {'ei': ei, 'ff': ff, 's': s_eff, 't': t, 'la': la, 'lc': lc,
+                           'special': [x for x in (den_label, ord_label) if x]}
+
+
+def _describe_case(c, zero):
+    s, t, la, lc = c['s'], c['t'], c['la'], c['lc']
+    sl = 'zero slope' if s == 0 else ('slope within the zero tolerance' if zero(s) else
+                                      ('positive idle→approach slope' if s > 0 else 'negative idle→approach slope'))
+    if zero(s):
+        pos = ''
+    else:
+        rel = []
+        rel.append('above the climb flow' if t > lc else 'at the climb flow' if t == lc else 'below the climb flow')
+        rel.append('below the approach flow' if t < la else 'at the approach flow' if t == la else 'above the approach flow')
+        pos = ', segments intersecting ' + ' and '.join(rel)
+    return sl + pos + (' [' + '; '.join(c['special']) + ']' if c['special'] else '')
+
+
+def _fit_words(f):
+    x, level, s, c0 = f
+    return f'break point {float(x):.4g}, level {float(level):.4g}, slope {float(s):.4g}, line offset {float(c0):.4g}'
+
+
+def hcco_breaks(fn, consts):
+    """numeric literals the prelude compares with, and isclose tolerances: the break points the code itself introduces"""
+    out = {Fraction(0), Fraction(1, 10 ** 8)}
+    for x in walk_no_nested(fn):
+        if isinstance(x, ast.Compare):
+            for e in [x.left] + list(x.comparators):
+                v = const_value(e)
+                if isinstance(v, (int, float)) and not isinstance(v, bool):
+                    out.add(abs(Fraction(repr(v))))
+        elif isinstance(x, ast.Call) and call_name(x).split('.')[-1] == 'isclose':
+            for e in list(x.args) + [k.value for k in x.keywords]:
+                v = const_value(e)
+                if isinstance(v, (int, float)) and not isinstance(v, bool):
+                    out.add(abs(Fraction(repr(v))))
+    return {b for b in out if b < 10 ** 6}
+
+
+def hcco_evaluate(fn, consts, tables=('x_EI', 'ff_cal')):
+    """Run the prelude of `fn` over the grid; returns (cases, regions hit by the documented rules, mismatches under the
+    tolerance reading of "slope == 0", mismatches under the exact reading)."""
+    breaks = hcco_breaks(fn, consts)
+    results = {}
+    n = 0
+    for exact in (False, True):
+        zero = (lambda v: v == 0) if exact else (lambda v: _isclose(v, Fraction(0), Fraction(1, 10 ** 5), Fraction(1, 10 ** 8)))
+        bad, rules = [], set()
+        n = 0
+        for c in hcco_grid(breaks):
+            n += 1
+            want, rule = hcco_documented_fit(c['ei'], c['ff'], zero)
+            rules.add(rule)
+            run = ScalarRun(fn, {tables[0]: {k: Pos(v) for k, v in c['ei'].items()},
+                                 tables[1]: {k: Pos(v) for k, v in c['ff'].items()}}, consts, HCCO_TRACKED)
+            snap = run.run()
+            if snap is None:
+                raise Undecidable('the function returns before any evaluation point is classified' if run.exited else
+                                  'no array expression reads the fit parameters ' + ', '.join(HCCO_TRACKED))
+            miss = [k for k in HCCO_TRACKED if not isinstance(snap.get(k), Fraction)]
+            if miss:
+                raise Undecidable(f'{", ".join(miss)} not a scalar of the certification data where the evaluation points '
+                                  f'are classified (line {run.snap_line}) for: {_describe_case(c, zero)}')
+            got = (snap['x_intercept'], snap['x_horzline'], snap['slope'],
+                   snap['base_log_EI'] - snap['slope'] * snap['base_log_fuel'])
+            if got != want:
+                bad.append((c, rule, want, got, zero))
+        results[exact] = (bad, rules)
+        if not bad:
+            break
+    return n, results
 
 
 def rule_hcco(ctx):
@@ -835,14 +1753,46 @@ def rule_hcco(ctx):
     m = prog.module('emissions/ei/hcco.py')
     fi = m.func('EI_HCCO')
     H = REF.HCCO
-    f = single_def_value(fi.node, 'factor')
-    if f is None:
-        ctx.undecided('C12-R1', fi, 'factor', 'ambient factor not found')
     vis = visible_constants(prog, m)
-    _cmp(ctx, 'C12-R1', fi, 'HC/CO ambient factor', f, H['factor'], vis)
-    ap = [s for t, s, how in stores_to(fi.node) if isinstance(t, ast.Name) and t.id == 'xEI_out' and how == 'aug']
-    ok = len(ap) == 1 and isinstance(ap[0].op, ast.Mult) and norm(ap[0].value) == 'factor' and not guards_of(ap[0])
-    ctx.ob('C12-R1', fi, 'ambient factor multiplies every point', ok, 'xEI_out *= factor' if ok else 'the ambient factor is not applied to the whole array')
+    # the ambient factor: what is returned is the array of fitted indices times theta^3.3 / delta^1.02, at every point.
+    # Read off the value itself: the returned expression with single-definition locals inlined, times every unguarded
+    # whole-array scaling `A *= e` / `A /= e` of the array it is made of - `A *= factor; return A`, `return A * factor`,
+    # `out = A * theta ** 3.3 / delta ** 1.02; return out` are the same value.
+    rets = [r for r in walk_no_nested(fi.node) if isinstance(r, ast.Return) and r.value is not None]
+    if len(rets) != 1:
+        ctx.undecided('C12-R1', fi, 'HC/CO ambient factor', f'{len(rets)} return statements')
+    arrays = {t.value.id for t, st, how in stores_to(fi.node) if isinstance(t, ast.Subscript) and isinstance(t.value, ast.Name)}
+    from ..conform import _inline_env
+    env_ = _inline_env(fi.node)
+
+    def array_names(e, depth=0):
+        out = set()
+        for x in ast.walk(e):
+            if isinstance(x, ast.Name):
+                if x.id in arrays:
+                    out.add(x.id)
+                elif x.id in env_ and depth < 8:
+                    out |= array_names(env_[x.id], depth + 1)
+        return out
+    arr = array_names(rets[0].value)
+    if len(arr) != 1:
+        ctx.undecided('C12-R1', fi, 'HC/CO ambient factor', f'the returned value is built from {sorted(arr) or "no"} element-wise filled array(s)')
+    A = arr.pop()
+    total = rets[0].value
+    partial = None
+    for t, st, how in stores_to(fi.node):
+        if how == 'aug' and isinstance(t, ast.Name) and t.id == A:
+            if not isinstance(st.op, (ast.Mult, ast.Div)):
+                ctx.undecided('C12-R1', fi, 'HC/CO ambient factor', f'`{norm(st)[:60]}` changes the whole array other than by scaling')
+            later = [s2 for t2, s2, h2 in stores_to(fi.node) if isinstance(t2, ast.Subscript) and norm(t2.value) == A and h2 == 'assign'
+                     and s2.lineno > st.lineno and A not in {x.id for x in ast.walk(s2.value) if isinstance(x, ast.Name)}]
+            if guards_of(st) or later:
+                partial = st
+            total = ast.copy_location(ast.BinOp(left=total, op=st.op, right=st.value), st)
+    ok = partial is None
+    ctx.ob('C12-R1', fi, 'ambient factor multiplies every point', ok, 'whole-array scaling, after the last element-wise assignment' if ok else
+           'the ambient factor is not applied to the whole array', line=(partial or rets[0]).lineno)
+    _cmp(ctx, 'C12-R1', fi, 'HC/CO ambient factor', total, 'XEI * (' + H['factor'] + ')', vis, rename={A: 'XEI'}, line=rets[0].lineno)
     ac = single_def_value(fi.node, 'xEI_acrp')
     if ac is None:
         ctx.undecided('C12-R1', fi, 'xEI_acrp', 'ACRP correction not found')
@@ -857,42 +1807,86 @@ def rule_hcco(ctx):
     _cmp(ctx, 'C12-R1', fi, 'horizontal level', hz[0].value, H['x_horzline'], {}, rename=ren)
     nu = single_def_value(fi.node, 'numerator')
     if nu is not None:
+        # read where it is computed: names with one definition per branch (base_log_fuel, base_log_EI are rebound by the
+        # flatten rule) resolve to the definition that reaches the statement
+        try:
+            vc = ValueCase(fi.node)
+            st_ = [st for t, st, how in stores_to(fi.node) if isinstance(t, ast.Name) and t.id == 'numerator'][0]
+            at = vc.node_of(st_)
+            if at is not None:
+                nu = ast.copy_location(vc.resolve(nu, at, stop=('slope',), quiet=True), nu)
+        except Undecidable:
+            pass
         _cmp(ctx, 'C12-R1', fi, 'intercept numerator', nu, H['x_intercept_num'], {}, rename=ren, stop=('slope',))
     sn = single_def_value(fi.node, 'slope_num')
     sd = single_def_value(fi.node, 'slope_den')
     if sn is not None and sd is not None:
         _cmp(ctx, 'C12-R1', fi, 'slope numerator', sn, 'log10(EI_APPROACH) - log10(EI_IDLE)', {}, rename=ren)
         _cmp(ctx, 'C12-R1', fi, 'slope denominator', sd, 'log10(FF_APPROACH) - log10(FF_IDLE)', {}, rename=ren)
-    # R5: order of the clamping rules
-    chain = None
-    for x in walk_no_nested(fi.node):
-        if isinstance(x, ast.If) and 'x_intercept >' in norm(x.test) and 'log_ff_cal2' in norm(x.test):
-            chain = x
-    tests = []
-    cur = chain
-    while isinstance(cur, ast.If):
-        tests.append(norm(cur.test))
-        cur = cur.orelse[0] if len(cur.orelse) == 1 and isinstance(cur.orelse[0], ast.If) else None
-    want = ['x_intercept > log_ff_cal2', 'x_intercept < log_ff_cal1 and slope < 0.0', 'slope >= 0.0']
-    ok = tests == want
-    if chain is None:
-        # maybe reordered: find any if-chain over these tests
-        for x in walk_no_nested(fi.node):
-            if isinstance(x, ast.If) and ('slope >= 0' in norm(x.test) or 'x_intercept <' in norm(x.test)) \
-                    and not isinstance(getattr(x, '_parent', None), ast.If):
-                cur, tests = x, []
-                while isinstance(cur, ast.If):
-                    tests.append(norm(cur.test))
-                    cur = cur.orelse[0] if len(cur.orelse) == 1 and isinstance(cur.orelse[0], ast.If) else None
-    ctx.ob('C12-R5', fi, f'clamping rules in order {tests}', ok,
-           '(a) clamp to climb flow, else (b) below-approach with negative slope, else (c) non-negative slope' if ok else
-           'the documented clamping rules (a)(b)(c) are tested in a different order or with different conditions: '
-           'certification sets with non-negative slope and a high intercept take the wrong branch',
-           line=(chain.lineno if chain is not None else fi.node.lineno))
-    for nm, mode in (('log_ff_cal1', 'APPROACH'), ('log_ff_cal2', 'CLIMB')):
-        d = single_def_value(fi.node, nm)
-        ok = d is not None and norm(d) == f'np.log10(ff_cal[ThrustMode.{mode}])'
-        ctx.ob('C12-R5', fi, f'{nm} = log10 of {mode.lower()} flow', ok, norm(d) if ok else f'{nm} refers to the wrong mode', nontrivial=False)
+    # R5: the clamping rules, decided by running the scalar prelude over every sign / position case
+    for label, src, expect_bad in (('documented chain', HCCO_CONTROL, False), ('flatten rule tested first', HCCO_CONTROL_REORDERED, True)):
+        cfn = ast.parse(src).body[0]
+        _, cres = hcco_evaluate(cfn, {})
+        cbad = cres[False][0]
+        hit = bool(cbad) and any(r == 'a' and c['s'] > 0 for c, r, *_ in cbad)
+        ctx.control('C12-R5', hit if expect_bad else not cbad, f'embedded HC/CO prelude ({label}) is '
+                    + ('refused in the region of rule (a) with a positive slope' if expect_bad else 'accepted in every region'))
+    try:
+        ncases, res = hcco_evaluate(fi.node, vis)
+    except Undecidable as ex:
+        ctx.undecided('C12-R5', fi, 'HC/CO clamping rules', str(ex))
+    bad, regions = res[False]
+    ctx.floor('C12-R5', len(regions), 4, 'regions of the documented rule table (a) (b) (c) none reached by the case grid')
+    if bad and True in res and not res[True][0]:
+        bad = []          # "slope == 0" read exactly instead of within np.isclose's tolerance: the documented wording
+    chain_line = min([x.lineno for x in walk_no_nested(fi.node) if isinstance(x, ast.If)
+                      and any(isinstance(n_, ast.Name) and n_.id in HCCO_TRACKED for n_ in ast.walk(x.test))] or [fi.node.lineno])
+    ctx.stats['C12-R5 cases'] = ncases
+    if not bad:
+        ctx.ob('C12-R5', fi, 'HC/CO clamping rules (a) (b) (c) over slope sign x intercept position', True,
+               f'the fit parameters equal the documented rule table in all {ncases} sign / position cases '
+               '((a) clamp to climb flow, else (b) below approach with negative slope, else (c) non-negative slope)',
+               line=chain_line)
+    else:
+        plain = [b for b in bad if not b[0]['special'] and not b[4](b[0]['s'])] or [b for b in bad if not b[0]['special']] or bad
+        c, rule, want, got, zero = plain[0]
+        names = {'a': '(a) intercept above the climb flow: clamp the break point to the climb flow',
+                 'b': '(b) intercept below the approach flow with negative slope: level := approach EI, break point := approach flow',
+                 'c': '(c) non-negative slope: flat fit at the high-power level', 'none': 'no clamping rule applies'}
+        ctx.ob('C12-R5', fi, 'HC/CO clamping rules (a) (b) (c) over slope sign x intercept position', False,
+               f'the documented clamping rules are not applied in the documented order (a) (b) (c): for {_describe_case(c, zero)} '
+               f'the rule table says {names[rule]} -> {_fit_words(want)}; the code yields {_fit_words(got)} '
+               f'({len(bad)} of {ncases} cases differ)', line=chain_line)
+
+
+HCCO_CONTROL = '''
+def control(ff_eval, x_EI, ff_cal):
+    slope_den = np.log10(ff_cal[ThrustMode.APPROACH]) - np.log10(ff_cal[ThrustMode.IDLE])
+    if np.isclose(slope_den, 0.0):
+        slope = 0.0
+    else:
+        slope = (np.log10(x_EI[ThrustMode.APPROACH]) - np.log10(x_EI[ThrustMode.IDLE])) / slope_den
+    base_log_fuel = np.log10(ff_cal[ThrustMode.IDLE])
+    base_log_EI = np.log10(x_EI[ThrustMode.IDLE])
+    x_horzline = 0.5 * (np.log10(x_EI[ThrustMode.CLIMB]) + np.log10(x_EI[ThrustMode.TAKEOFF]))
+    if np.isclose(slope, 0.0):
+        x_intercept = np.log10(ff_cal[ThrustMode.APPROACH])
+    else:
+        x_intercept = base_log_fuel + (x_horzline - base_log_EI) / slope
+    if x_intercept > np.log10(ff_cal[ThrustMode.CLIMB]):
+        x_intercept = np.log10(ff_cal[ThrustMode.CLIMB])
+    elif x_intercept < np.log10(ff_cal[ThrustMode.APPROACH]) and slope < 0.0:
+        x_horzline = np.log10(x_EI[ThrustMode.APPROACH])
+        x_intercept = np.log10(ff_cal[ThrustMode.APPROACH])
+    elif slope >= 0.0:
+        slope, base_log_fuel, base_log_EI = 0.0, 0.0, x_horzline
+        x_intercept = np.log10(ff_cal[ThrustMode.APPROACH])
+    lower = np.log10(ff_eval) < x_intercept
+    return np.where(lower, 10.0 ** (slope * (np.log10(ff_eval) - base_log_fuel) + base_log_EI), 10.0 ** x_horzline)
+'''
+HCCO_CONTROL_REORDERED = HCCO_CONTROL.replace('    if x_intercept > np.log10(ff_cal[ThrustMode.CLIMB]):', '    if slope >= 0.0:\n'
+    '        slope, base_log_fuel, base_log_EI = 0.0, 0.0, x_horzline\n        x_intercept = np.log10(ff_cal[ThrustMode.APPROACH])\n'
+    '    elif x_intercept > np.log10(ff_cal[ThrustMode.CLIMB]):')
 
 
 def rule_sox(ctx):
@@ -920,10 +1914,25 @@ def rule_sox(ctx):
         ctx.undecided('C12-R3', fi, 'sulfur balance', str(e))
     ctx.ob('C12-R3', fi, 'EI_SO2/MW_SO2 + EI_SO4/MW_SO4 ≡ S·10³/MW_S', ok,
            'sulfur atoms conserved identically in the sulfate yield' if ok else 'sulfur atoms are not conserved')
+    # the result record, field by field and by value: positional or keyword arguments of the record's constructor are
+    # put under the field names of the class; each must be the value computed for it
     r = [n for n in walk_no_nested(fi.node) if isinstance(n, ast.Return)][0].value
-    kw = {k.arg: norm(k.value) for k in r.keywords} if isinstance(r, ast.Call) else {}
-    ok = kw.get('EI_SOx') in ('EI_SO2 + EI_SO4', 'EI_SO4 + EI_SO2') and kw.get('EI_SO2') == 'EI_SO2' and kw.get('EI_SO4') == 'EI_SO4'
-    ctx.ob('C12-R3', fi, f'result {kw}', ok, 'SOx = SO2 + SO4, fields carry their own values' if ok else
+    if isinstance(r, ast.Name):
+        r = single_def_value(fi.node, r.id) or r
+    fields_ = {}
+    if isinstance(r, ast.Call) and not any(isinstance(a_, ast.Starred) for a_ in r.args) and all(k.arg for k in r.keywords):
+        ci = prog.resolve_name(m, call_name(r)) if isinstance(r.func, ast.Name) else None
+        names_ = list(ci.annotated_fields()) if ci is not None and hasattr(ci, 'annotated_fields') else []
+        fields_ = dict(zip(names_, r.args))
+        fields_.update({k.arg: k.value for k in r.keywords})
+    ok = set(fields_) >= {'EI_SOx', 'EI_SO2', 'EI_SO4'}
+    if ok:
+        try:
+            got = {k: nf_code(fi.node, fields_[k], consts, rename=ren) for k in ('EI_SOx', 'EI_SO2', 'EI_SO4')}
+            ok = poly_equal(got['EI_SOx'], a + b) and poly_equal(got['EI_SO2'], a) and poly_equal(got['EI_SO4'], b)
+        except AlgebraError as e:
+            ctx.undecided('C12-R3', fi, 'result fields', str(e))
+    ctx.ob('C12-R3', fi, f'result {({k: norm(v)[:30] for k, v in fields_.items()})}', ok, 'SOx = SO2 + SO4, fields carry their own values' if ok else
            'SOx is not SO2 + SO4 or the result fields are crossed')
     lin = all(dict(mm).get('FSC', 0) == 1 for mm in a.num) and all(dict(mm).get('FSC', 0) == 1 for mm in b.num)
     ctx.ob('C12-R3', fi, 'SOx indices linear in fuel sulfur content', lin, 'degree 1' if lin else 'not proportional to sulfur content')
@@ -932,34 +1941,67 @@ def rule_sox(ctx):
 def rule_pm(ctx):
     prog = ctx.prog
     m = prog.module('emissions/ei/pmvol.py')
+    # Both volatile-PM routines are element-wise functions of their arguments: they are run for single points (exact
+    # arithmetic, np.interp / interp1d / np.where on scalars, tables written in the function or at module level) and
+    # the two values returned are compared with the documented method at that point.
+    vis = visible_constants(prog, m)
     f3 = m.func('EI_PMvol_FOA3')
-    for nm, want in (('ICAO_thrust', REF.FOA3['thrust']), ('delta', REF.FOA3['delta'])):
-        d = single_def_value(f3.node, nm)
-        vals = [e.value for e in d.args[0].elts] if isinstance(d, ast.Call) and d.args and isinstance(d.args[0], ast.List) else None
-        ok = vals is not None and [Fraction(repr(v)) for v in vals] == [Fraction(repr(v)) for v in want]
-        ctx.ob('C12-R1', f3, f'FOA3 {nm} = {vals}', ok, 'FOA3 table' if ok else f'FOA3 {nm} differs from {want}')
-    dm = single_def_value(f3.node, 'delta_matrix')
-    ok = dm is not None and norm(dm) == 'np.interp(thrusts, ICAO_thrust, delta)'
-    ctx.ob('C12-R1', f3, 'δ interpolated in thrust percentage', ok, norm(dm) if ok else 'δ look-up changed')
-    pv = single_def_value(f3.node, 'PMvoloEI')
-    _cmp(ctx, 'C12-R1', f3, 'FOA3 PMvol', pv, REF.FOA3['PMvol'], {}, rename={'delta_matrix': 'DELTA'}, stop=('delta_matrix',))
+    if len(f3.params) != 2:
+        ctx.undecided('C12-R1', f3, 'parameters', 'expected (thrust percentages, HC index)')
+    thr_t = [Fraction(repr(v)) for v in REF.FOA3['thrust']]
+    dl_t = [Fraction(repr(v)) for v in REF.FOA3['delta']]
+    bad = None
+    lin = True
+    n = 0
     try:
-        nf = nf_code(f3.node, pv, {}, rename={'delta_matrix': 'DELTA'}, stop=('delta_matrix',))
-        lin = all(dict(mm).get('HCEI', 0) == 1 for mm in nf.num)
-    except AlgebraError:
-        lin = False
-    ctx.ob('C12-R3', f3, 'FOA3 PMvol linear in the HC index', lin, 'degree 1 in HCEI' if lin else 'not proportional to the HC index')
+        for thr in (0, 3, 7, Fraction(37, 2), 30, 50, 85, Fraction(185, 2), 100, 120):
+            vals = []
+            for hc in (Fraction(2), Fraction(4)):
+                run = ScalarRun(f3.node, {}, vis, env={f3.params[0]: Fraction(thr), f3.params[1]: hc}, module_tree=m.tree)
+                run.run()
+                got = run.returned
+                if not (isinstance(got, tuple) and len(got) == 2 and all(isinstance(x, Fraction) for x in got)):
+                    raise Undecidable(f'at thrust {float(thr):g} % the result is {got!r}, not two numbers computed from the arguments')
+                vals.append(got)
+                n += 1
+                want = _lin_interp(Fraction(thr), thr_t, dl_t) * hc / 1000
+                if got != (want, want) and bad is None:
+                    bad = (thr, hc, want, got)
+            lin = lin and vals[1] == tuple(2 * x for x in vals[0])
+    except Undecidable as ex:
+        ctx.undecided('C12-R1', f3, 'FOA3 PMvol', str(ex))
+    ctx.floor('C12-R1/foa3', n, 20, 'FOA3 evaluation points')
+    ok = bad is None
+    ctx.ob('C12-R1', f3, 'FOA3 PMvol = δ(thrust %) · EI_HC / 1000, δ interpolated in the FOA3 table and held at its ends', ok,
+           f'equal at all {n} points (below, at, between and above the 7 / 30 / 85 / 100 % table entries)' if ok else
+           f'at thrust {float(bad[0]):g} % and EI_HC {float(bad[1]):g} g/kg the method gives {float(bad[2]):.6g}, the code {tuple(float(x) for x in bad[3])}')
+    ctx.ob('C12-R3', f3, 'FOA3 PMvol linear in the HC index', lin, 'doubling EI_HC doubles the result' if lin else 'not proportional to the HC index')
     ff = m.func('EI_PMvol_FuelFlow')
     P = REF.PMVOL_FF
-    for nm, want in (('OCic_val', P['OCic']), ('lubeContrL', P['lube_low']), ('lubeContrH', P['lube_high'])):
-        d = single_def_value(ff.node, nm)
-        ok = isinstance(d, ast.Constant) and Fraction(repr(d.value)) == Fraction(repr(want))
-        ctx.ob('C12-R1', ff, f'{nm} = {norm(d) if d is not None else None}', ok, 'documented constant' if ok else f'{nm} ≠ {want}')
-    pv = single_def_value(ff.node, 'PMvolo_vec')
-    _cmp(ctx, 'C12-R1', ff, 'fuel-flow PMvol', pv, P['PMvol'], {}, rename={'OCic_val': 'OCIC', 'lubeContr': 'LUBE'}, stop=('OCic_val', 'lubeContr'))
-    lc = single_def_value(ff.node, 'lubeContr')
-    ok = lc is not None and norm(lc) == 'np.where(thrustMode.data == ThrustMode.IDLE, lubeContrL, lubeContrH)'
-    ctx.ob('C12-R1', ff, 'low lube share at idle, high above', ok, norm(lc) if ok else 'lube-oil share selection changed')
+    if len(ff.params) != 2:
+        ctx.undecided('C12-R1', ff, 'parameters', 'expected (fuel flow, thrust modes)')
+    bad = None
+    n = 0
+    try:
+        for mode in THRUST_MODES:
+            run = ScalarRun(ff.node, {}, vis, env={ff.params[1]: f'ThrustMode.{mode}'}, enums={'ThrustMode': THRUST_MODES}, module_tree=m.tree)
+            run.run()
+            got = run.returned
+            if not (isinstance(got, tuple) and len(got) == 2 and all(isinstance(x, Fraction) for x in got)):
+                raise Undecidable(f'for mode {mode} the result is {got!r}, not two numbers')
+            n += 1
+            oc = Fraction(repr(P['OCic']))
+            lube = Fraction(repr(P['lube_low'] if mode == 'IDLE' else P['lube_high']))
+            want = (oc / (1 - lube), oc)
+            if got != want and bad is None:
+                bad = (mode, want, got)
+    except Undecidable as ex:
+        ctx.undecided('C12-R1', ff, 'fuel-flow PMvol', str(ex))
+    ctx.floor('C12-R1/pmvol-ff', n, 4, 'thrust modes evaluated')
+    ok = bad is None
+    ctx.ob('C12-R1', ff, 'fuel-flow PMvol = OC_ic / (1 − lube share): 15 % at idle, 50 % above; OC_ic = 20 mg/kg', ok,
+           'equal for every thrust mode' if ok else
+           f'for mode {bad[0]} the method gives (PMvol, OCic) = {tuple(float(x) for x in bad[1])}, the code {tuple(float(x) for x in bad[2])}')
     # SCOPE11
     m2 = prog.module('emissions/ei/pmnvol.py')
     sc = m2.func('calculate_PMnvolEI_scope11')
@@ -1003,9 +2045,32 @@ def rule_pm(ctx):
     vals = [a.value for a in afr.args] if isinstance(afr, ast.Call) else None
     ok = vals == S['AFR']
     ctx.ob('C12-R1', sc, f'air-fuel ratios {vals}', ok, 'idle/approach/climb/take-off AFR' if ok else f'AFR table differs from {S["AFR"]}')
-    cap = [st for st in defs.get('SN', []) if isinstance(st.value, ast.Call) and call_name(st.value) == 'min']
-    ok = len(cap) == 1 and norm(cap[0].value) == f'min(SN, {S["SN_cap"]})'
-    ctx.ob('C12-R1', sc, 'smoke number capped at 40', ok, 'min(SN, 40)' if ok else 'smoke number cap changed')
+    # the smoke number that enters C_BC is the measured one capped at 40; modes without a measurement (-1, 0) are left out.
+    # By evaluation: the per-mode body run for one mode with a known smoke number, read where C_BC is computed.
+    loops = [x for x in walk_no_nested(sc.node) if isinstance(x, ast.For) and isinstance(x.target, ast.Name)
+             and any(isinstance(t, ast.Name) and t.id == 'SN' for t, _, _ in stores_to(x))]
+    if len(loops) != 1 or len(sc.params) < 1:
+        ctx.undecided('C12-R1', sc, 'smoke number cap', 'per-mode loop binding SN not found')
+    body = ast.FunctionDef(name='per_mode', args=ast.arguments(posonlyargs=[], args=[], kwonlyargs=[], kw_defaults=[], defaults=[]),
+                           body=loops[0].body, decorator_list=[], lineno=loops[0].lineno, col_offset=0)
+    bad = None
+    try:
+        for raw in (-1, 0, 1, 12.5, 39, 40, 41, 80):
+            run = ScalarRun(body, {sc.params[0]: {m_: Fraction(repr(raw)) for m_ in THRUST_MODES}}, {}, tracked=('SN',),
+                            env={loops[0].target.id: 'ThrustMode.CLIMB'}, enums={'ThrustMode': THRUST_MODES})
+            snap = run.run()
+            want = None if raw in (-1, 0) else min(Fraction(repr(raw)), Fraction(S['SN_cap']))
+            got = snap.get('SN') if snap is not None else None
+            if snap is not None and not isinstance(got, Fraction):
+                raise Undecidable(f'the smoke number used for C_BC is not a number computed from the measured one ({got!r})')
+            if got != want and bad is None:
+                bad = (raw, want, got)
+    except Undecidable as ex:
+        ctx.undecided('C12-R1', sc, 'smoke number cap', str(ex))
+    ok = bad is None
+    ctx.ob('C12-R1', sc, 'smoke number capped at 40', ok, 'min(SN, 40) enters C_BC; modes without a measurement are skipped' if ok else
+           f'for a measured smoke number of {bad[0]} the value entering C_BC is {bad[2] if bad[2] is None else float(bad[2])}, '
+           f'documented {bad[1] if bad[1] is None else float(bad[1])}')
     ci = defs.get('CI_best[mode]', [])
     ok = len(ci) == 1 and norm(ci[0].value) in ('kslm * CBC_i', 'CBC_i * kslm')
     pe = single_def_value(sc.node, 'PMnvolEI_best')
